@@ -1,214 +1,277 @@
-(* C12 at text level, for schemas without descriptions, default values and
-   applied custom directives: the text of the schema printer model is the text
-   the ASTPrinter model of C03 prints for [ast_of_schema], so the parser model
-   of C01 reads it back (Proofs/PrinterSdlRoundtrip.v::sdl_roundtrip). *)
+(* C12 at text level, for schemas without descriptions (default values and
+   applied custom directives included): the text of the schema printer model
+   is the text the ASTPrinter model of C03 prints for [ast_of_schema], so the
+   parser model of C01 reads it back
+   (Proofs/PrinterSdlRoundtrip.v::sdl_roundtrip). *)
 From PyGql Require Import Lang.PrinterModel Spec.PrinterSpec Lang.Parser Spec.GrammarSpec Spec.SdlGrammarSpec
                           Proofs.PrinterRoundtrip Proofs.PrinterExecRoundtrip Proofs.PrinterSdlRoundtrip.
 From PyGql Require Import Schema.SdlSchema Schema.SdlBuild Schema.SdlPrint Spec.SdlRoundtripSpec
                           Proofs.SdlTextProofs.
 From Coq Require Import Lia.
 
-Notation vname := PrinterRoundtrip.valid_name.
+From PyGql Require Export Proofs.SdlTextBaseProofs Proofs.SdlValueTextProofs Proofs.SdlValueShapeProofs.
+From PyGql Require Import Proofs.PrinterValueRoundtrip.
 
 (* ------------------------------------------------------------------ *)
-(* strings                                                              *)
+(* generic pieces                                                       *)
 
-Lemma join_ne_join (l : list str) sep : join_ne l sep = join sep l.
+Lemma imap_ok {A B} (f : nat -> A -> outcome B) (g : A -> B) l :
+  (forall i x, In x l -> f i x = Ok (g x)) -> imap f l = Ok (map g l).
 Proof.
-  induction l as [|x l IH]; [reflexivity|]. cbn [join_ne join]. destruct l as [|y l]; [reflexivity|].
-  rewrite IH. reflexivity.
+  unfold imap. generalize 0. induction l as [|x l IH]; intros n H; [reflexivity|].
+  rewrite (H n x (or_introl eq_refl)). cbn [obind].
+  rewrite IH by (intros; apply H; right; assumption). reflexivity.
 Qed.
 
-Lemma p_join_all (l : list str) sep : Forall (fun x => x <> []) l -> p_join l sep = join sep l.
+Lemma join_ne_ne (l : list str) sep : l <> [] -> Forall (fun x => x <> []) l -> join sep l <> [].
 Proof.
-  intros H. unfold p_join. rewrite <- join_ne_join. f_equal.
-  induction H as [|x l Hx Hl IH]; [reflexivity|]. cbn [filter]. destruct x; [congruence|]. cbn [is_empty negb].
-  rewrite IH. reflexivity.
+  intros Hne H. destruct l as [|x l]; [congruence|]. inversion H; subst.
+  destruct l; cbn [join]; [assumption|]. intros He. apply app_eq_nil in He. tauto.
 Qed.
 
-Lemma p_join_nosep (l : list str) : p_join l [] = concat l.
+Lemma p_join_skip l sep : p_join ([] :: l) sep = p_join l sep.
+Proof. reflexivity. Qed.
+
+Lemma p_join_keep x l sep : x <> [] -> p_join (x :: l) sep = x ++ p_wrap sep (p_join l sep) [].
 Proof.
-  unfold p_join. induction l as [|x l IH]; [reflexivity|]. cbn [filter concat].
-  destruct x as [|c r]; cbn [is_empty negb]; [exact IH|].
-  cbn [join_ne]. destruct (filter _ l) as [|y ys] eqn:Hf.
-  - cbn [join_ne] in IH. rewrite <- IH, app_nil_r. reflexivity.
-  - rewrite <- IH. cbn [app]. reflexivity.
+  intros Hx. rewrite p_join_cons. destruct x as [|c r]; [congruence|]. cbn [is_empty].
+  unfold p_wrap. destruct (p_join l sep); cbn [is_empty]; rewrite ?app_nil_r; reflexivity.
 Qed.
 
-Lemma has_lf_app a b : has_lf (a ++ b) = has_lf a || has_lf b.
-Proof. unfold has_lf. apply existsb_app. Qed.
+Lemma p_join_single (x sep : str) : p_join [x] sep = x.
+Proof. unfold p_join. destruct x; reflexivity. Qed.
 
-Lemma reindent_nolf ind s : has_lf s = false -> reindent ind s = s.
+Lemma p_join_filter l sep : p_join l sep = join sep (filter (fun x => negb (is_empty x)) l).
+Proof. unfold p_join; apply join_ne_join. Qed.
+
+Lemma join_cons_sep (sep h : str) l : join sep (h :: l) = h ++ concat (map (fun x => sep ++ x) l).
 Proof.
-  unfold reindent, has_lf. induction s as [|c s IH]; [reflexivity|]. cbn [existsb flat_map].
-  intros H. apply Bool.orb_false_iff in H. destruct H as [Hc Hs]. rewrite Hc. cbn [app]. rewrite (IH Hs). reflexivity.
+  revert h. induction l as [|y l IH]; intros h; [cbn; rewrite app_nil_r; reflexivity|].
+  change (join sep (h :: y :: l)) with (h ++ sep ++ join sep (y :: l)). rewrite IH. cbn [map concat].
+  rewrite <- !app_assoc. reflexivity.
 Qed.
 
-Lemma p_indent_nolf s ind : s <> [] -> has_lf s = false -> p_indent s ind = ind ++ s.
-Proof. intros Hne Hl. unfold p_indent. destruct s; [congruence|]. cbn [is_empty]. rewrite (reindent_nolf _ _ Hl). reflexivity. Qed.
-
-(* name characters are neither line feeds nor white space *)
-Lemma name_cont_facts c : is_name_cont c = true -> (c =? PrinterModel.LF)%N = false /\ py_space c = false.
+Lemma join_app (sep : str) (l1 l2 : list str) :
+  l1 <> [] -> l2 <> [] -> join sep (l1 ++ l2) = join sep l1 ++ sep ++ join sep l2.
 Proof.
-  unfold is_name_cont, Lexer.is_letter, Lexer.is_digit, PrinterModel.LF, py_space. intros H.
-  assert (Hr : (c = 95 \/ (65 <= c <= 90) \/ (97 <= c <= 122) \/ (48 <= c <= 57))%N).
-  { repeat (apply Bool.orb_true_iff in H; destruct H as [H|H]);
-      repeat match goal with
-             | H : (_ && _) = true |- _ => apply andb_prop in H; destruct H
-             | H : (_ =? _)%N = true |- _ => apply N.eqb_eq in H
-             | H : (_ <=? _)%N = true |- _ => apply N.leb_le in H
-             end; lia. }
-  split.
-  - apply N.eqb_neq. lia.
-  - repeat match goal with |- context [(?a =? ?b)%N] => destruct (N.eqb_spec a b); [lia|] end.
-    repeat match goal with |- context [(?a <=? ?b)%N] => destruct (N.leb_spec a b); try lia end.
-    all: cbn; try reflexivity.
+  destruct l1 as [|h t]; [congruence|]. destruct l2 as [|h2 t2]; [congruence|]. intros _ _.
+  change ((h :: t) ++ h2 :: t2) with (h :: (t ++ h2 :: t2)). rewrite !join_cons_sep, map_app, concat_app.
+  cbn [map concat]. rewrite <- !app_assoc. reflexivity.
 Qed.
 
-Lemma vname_chars nm : vname nm -> nm <> [] /\ Forall (fun c => is_name_cont c = true) nm.
+(* " ".join of the non-empty pieces after a non-empty head *)
+Definition sp (x : str) : str := if is_empty x then [] else lit " " ++ x.
+
+Lemma p_join_sp h rest : h <> [] -> p_join (h :: rest) (lit " ") = h ++ concat (map sp rest).
 Proof.
-  intros (c & r & -> & Hs & Hr). split; [discriminate|]. constructor; [|exact Hr].
-  unfold is_name_start in Hs. unfold is_name_cont. apply Bool.orb_true_iff in Hs.
-  destruct Hs as [Hs|Hs]; rewrite Hs; [reflexivity|rewrite Bool.orb_true_r; reflexivity].
+  intros Hh. rewrite p_join_filter. cbn [filter]. destruct h as [|c r]; [congruence|]. cbn [is_empty negb].
+  rewrite join_cons_sep. f_equal. induction rest as [|x rest IH]; [reflexivity|]. cbn [filter map concat].
+  unfold sp at 1. destruct x; cbn [is_empty negb]; [exact IH|]. cbn [map concat]. rewrite IH. reflexivity.
 Qed.
 
-Definition nospace (s : str) : Prop := Forall (fun c => py_space c = false) s.
+(* a text that does not end with white space (or is empty) *)
+Definition lastok (s : str) : Prop := s <> [] -> py_space (last s 0%N) = false.
 
-Lemma chars_nolf s : Forall (fun c => is_name_cont c = true) s -> has_lf s = false /\ nospace s.
+Lemma lastok_app a b : lastok a -> lastok b -> lastok (a ++ b).
 Proof.
-  induction 1 as [|c s Hc Hs [IH1 IH2]]; [split; [reflexivity|constructor]|].
-  destruct (name_cont_facts c Hc) as [H1 H2]. split.
-  - unfold has_lf in *. cbn [existsb]. rewrite H1, IH1. reflexivity.
-  - constructor; assumption.
+  intros Ha Hb Hne. destruct b as [|c r].
+  - rewrite app_nil_r in *. apply Ha; exact Hne.
+  - rewrite last_app_ne by discriminate. apply Hb; discriminate.
 Qed.
 
-Lemma vname_nolf nm : vname nm -> has_lf nm = false /\ nospace nm /\ nm <> [].
-Proof. intros H. destruct (vname_chars nm H) as [Hne Hc]. destruct (chars_nolf nm Hc). auto. Qed.
+Lemma tight_lastok s : tight s -> lastok s.
+Proof. intros (_ & _ & H) _. exact H. Qed.
 
-Lemma lstrip_id s : match s with c :: _ => py_space c = false | [] => True end -> lstrip s = s.
-Proof. destruct s as [|c r]; [reflexivity|]. intros H. cbn [lstrip]. rewrite H. reflexivity. Qed.
+Lemma lastok_nil : lastok [].
+Proof. intros H; congruence. Qed.
 
-Lemma rstrip_id s : s <> [] -> py_space (last s 0%N) = false -> rstrip s = s.
+Lemma tight_head_lastok a b : tight a -> lastok b -> tight (a ++ b).
 Proof.
-  intros Hne Hl. unfold rstrip.
-  rewrite (app_removelast_last 0%N Hne) at 1. rewrite rev_app_distr. cbn [rev app lstrip].
-  rewrite Hl. cbn [rev]. rewrite rev_involutive. symmetry. apply (app_removelast_last 0%N Hne).
-Qed.
-
-(* a text made of non-blank characters at both ends *)
-Definition tight (s : str) : Prop :=
-  s <> [] /\ py_space (hd 0%N s) = false /\ py_space (last s 0%N) = false.
-
-Lemma strip_tight s : tight s -> strip s = s /\ rstrip s = s.
-Proof.
-  intros (Hne & Hh & Hl). assert (Hr : rstrip s = s) by (apply rstrip_id; assumption).
-  split; [|exact Hr]. unfold strip. rewrite lstrip_id; [exact Hr|]. destruct s; [congruence|exact Hh].
-Qed.
-
-Lemma last_app_ne (a b : str) d : b <> [] -> last (a ++ b) d = last b d.
-Proof.
-  intros Hb. induction a as [|x a IH]; [reflexivity|]. cbn [app].
-  destruct (a ++ b) eqn:He.
-  - exfalso. apply app_eq_nil in He. destruct He as [_ He]. contradiction.
-  - cbn [last]. exact IH.
-Qed.
-
-Lemma tight_app a b : tight a -> tight b -> tight (a ++ b).
-Proof.
-  intros (Ha & Hah & _) (Hb & _ & Hbl). repeat split.
+  intros (Ha & Hh & Hl) Hb. repeat split.
   - destruct a; [congruence|discriminate].
-  - destruct a; [congruence|exact Hah].
-  - rewrite last_app_ne by exact Hb. exact Hbl.
-Qed.
-
-Lemma tight_mid a m b : tight a -> tight b -> tight (a ++ m ++ b).
-Proof.
-  intros (Ha & Hah & _) (Hb & _ & Hbl). repeat split.
-  - destruct a; [congruence|discriminate].
-  - destruct a; [congruence|exact Hah].
-  - rewrite app_assoc, last_app_ne by exact Hb. exact Hbl.
-Qed.
-
-Lemma nospace_tight s : s <> [] -> nospace s -> tight s.
-Proof.
-  intros Hne Hs. repeat split; [exact Hne| |].
-  - destruct s; [congruence|]. inversion Hs; assumption.
-  - assert (Hin : In (last s 0%N) s).
-    { clear Hs. induction s as [|x s IH]; [congruence|]. destruct s; [left; reflexivity|].
-      right. apply IH. discriminate. }
-    unfold nospace in Hs. rewrite Forall_forall in Hs. apply Hs; exact Hin.
-Qed.
-
-(* type references *)
-Lemma print_tref_facts t : wf_tref t -> has_lf (print_tref t) = false /\ tight (print_tref t).
-Proof.
-  induction t as [n|t IH|t IH]; cbn [wf_tref print_tref].
-  - intros H. destruct (vname_nolf n H) as (H1 & H2 & H3). split; [exact H1|apply nospace_tight; assumption].
-  - intros H. destruct (IH H) as [H1 H2]. split.
-    + rewrite !has_lf_app, H1. reflexivity.
-    + apply (tight_mid (lit "[") (print_tref t) (lit "]")); repeat split; discriminate || reflexivity.
-  - intros [H _]. destruct (IH H) as [H1 H2]. split.
-    + rewrite has_lf_app, H1. reflexivity.
-    + apply tight_app; [exact H2|repeat split; discriminate || reflexivity].
-Qed.
-
-(* ------------------------------------------------------------------ *)
-(* the sub-language                                                     *)
-
-Definition nodirs (ds : list directive) : Prop := custom_dirs ds = [].
-
-Definition plain_siv (a : sivalue) : Prop :=
-  siv_default a = None /\ siv_desc a = None /\ nodirs (siv_dirs a)
-  /\ vname (siv_name a) /\ wf_tref (siv_type a).
-
-Definition iv_of (a : sivalue) : input_value_def :=
-  IVDef None (mk_name (siv_name a)) (ty_of_tref (siv_type a)) None [] None.
-
-Lemma ivdef_of_plain E a : plain_siv a -> ivdef_of E a = Ok (iv_of a).
-Proof.
-  intros (Hd & Hde & Hn & _). unfold ivdef_of, iv_of. rewrite Hd, Hde. unfold nodirs in Hn. rewrite Hn. reflexivity.
+  - destruct a; [congruence|exact Hh].
+  - apply (lastok_app a b); [intros _; exact Hl|exact Hb|]. destruct a; [congruence|discriminate].
 Qed.
 
 Section Texts.
   Variable o : popts.
-  Variable E : env.
-  Variable fuel : nat.
+  Variable E : env.      (* the printer's environment *)
+  Variable E0 : env.     (* the environment of ast_of_schema *)
+  Hypothesis Hext : env_le E0 E.
   Let cf := Cfg (po_indent o) true.
 
-  Lemma print_directives_nodirs ds : nodirs ds -> print_directives o ds = [].
+  (* ---- applied directives ------------------------------------------- *)
+  Definition dtext (l : list directive) : str :=
+    match l with [] => [] | _ => lit " " ++ join (lit " ") (map (pr_directive cf) l) end.
+
+  Lemma pr_directive_ne d : pr_directive cf d <> [].
+  Proof. unfold pr_directive. discriminate. Qed.
+
+  Lemma pr_directives_join l : pr_directives cf l = join (lit " ") (map (pr_directive cf) l).
   Proof.
-    unfold nodirs, custom_dirs, print_directives. intros H.
-    destruct (custom_enabled o); [|reflexivity].
-    assert (Hf : filter (fun d => include_custom o (n_val (d_name d))) ds = []).
-    { induction ds as [|d ds IH]; [reflexivity|]. cbn [filter] in *.
-      destruct (mem_str (n_val (d_name d)) specified_directive_names) eqn:Hm; cbn [negb] in H; [|discriminate].
-      unfold include_custom at 1. rewrite Hm. apply IH; exact H. }
-    rewrite Hf. reflexivity.
+    unfold pr_directives. apply p_join_all. apply Forall_forall. intros x Hx. apply in_map_iff in Hx.
+    destruct Hx as (d & <- & _). apply pr_directive_ne.
   Qed.
 
-  Definition iv_text (a : sivalue) : str := siv_name a ++ lit ": " ++ print_tref (siv_type a).
+  Lemma sp_dirs l : sp (pr_directives cf l) = dtext l.
+  Proof.
+    rewrite pr_directives_join. unfold sp, dtext. destruct l as [|d r]; [reflexivity|].
+    assert (Hne : join (lit " ") (map (pr_directive cf) (d :: r)) <> []).
+    { apply join_ne_ne; [discriminate|]. apply Forall_forall. intros x Hx. apply in_map_iff in Hx.
+      destruct Hx as (y & <- & _). apply pr_directive_ne. }
+    destruct (join (lit " ") (map (pr_directive cf) (d :: r))); [congruence|reflexivity].
+  Qed.
+
+  Lemma wrap_dirs l : p_wrap (lit " ") (pr_directives cf l) [] = dtext l.
+  Proof. rewrite <- sp_dirs. unfold p_wrap, sp. destruct (is_empty (pr_directives cf l)); rewrite ?app_nil_r; reflexivity. Qed.
+
+  Lemma dtext_app a b : dtext (a ++ b) = dtext a ++ dtext b.
+  Proof.
+    unfold dtext. destruct a as [|x a]; [reflexivity|]. destruct b as [|y b]; [rewrite !app_nil_r; reflexivity|].
+    change ((x :: a) ++ y :: b) with (x :: (a ++ y :: b)). cbv iota.
+    change (x :: (a ++ y :: b)) with ((x :: a) ++ (y :: b)).
+    rewrite map_app, join_app by discriminate. rewrite <- !app_assoc. reflexivity.
+  Qed.
+
+  Lemma dtext_facts l : Forall good_dir l -> has_lf (dtext l) = false /\ lastok (dtext l).
+  Proof.
+    intros H. unfold dtext. destruct l as [|d r]; [split; [reflexivity|apply lastok_nil]|].
+    assert (Hall : Forall (fun x => has_lf x = false /\ tight x) (map (pr_directive cf) (d :: r))).
+    { apply Forall_forall. intros x Hx. apply in_map_iff in Hx. destruct Hx as (y & <- & Hy).
+      rewrite Forall_forall in H. apply good_dir_text. apply H; exact Hy. }
+    split.
+    - rewrite has_lf_app, has_lf_join; [reflexivity|reflexivity|]. eapply Forall_impl; [|exact Hall]. intros x [Hx _]; exact Hx.
+    - intros _. set (l := map (pr_directive cf) (d :: r)) in *.
+      assert (Hl : forall l0 : list str, l0 <> [] -> Forall (fun x => has_lf x = false /\ tight x) l0 ->
+                   join (lit " ") l0 <> [] /\ py_space (last (join (lit " ") l0) 0%N) = false).
+      { induction l0 as [|x l0 IH]; intros Hne F; [congruence|]. inversion F as [|? ? [_ Hx] Fr]; subst.
+        destruct l0 as [|y l0]; [cbn [join]; destruct Hx as (H1 & _ & H3); split; assumption|].
+        destruct (IH ltac:(discriminate) Fr) as [I1 I2].
+        change (join (lit " ") (x :: y :: l0)) with (x ++ lit " " ++ join (lit " ") (y :: l0)). split.
+        - destruct Hx as (H1 & _). intros He. apply app_eq_nil in He. tauto.
+        - rewrite app_assoc, last_app_ne by exact I1. exact I2. }
+      destruct (Hl l ltac:(discriminate) Hall) as [L1 L2]. rewrite last_app_ne by exact L1. exact L2.
+  Qed.
+
+  Lemma good_deprecated dep : Forall good_dir (deprecated_dir dep).
+  Proof.
+    destruct dep as [r|]; [|constructor]. unfold deprecated_dir. constructor; [|constructor].
+    assert (Hd : vname (S_ "deprecated")).
+    { unfold S_. cbn. eexists _, _. split; [reflexivity|]. split; [reflexivity|]. repeat constructor. }
+    assert (Hr : vname (S_ "reason")).
+    { unfold S_. cbn. eexists _, _. split; [reflexivity|]. split; [reflexivity|]. repeat constructor. }
+    repeat split; try exact Hd. cbn [d_args].
+    destruct (str_eqb r default_deprecation); [constructor|]. constructor; [|constructor].
+    repeat split. exact Hr.
+  Qed.
+
+  Lemma dtext_deprecated dep : dtext (deprecated_dir dep) = print_deprecated dep.
+  Proof.
+    destruct dep as [r|]; [|reflexivity]. unfold deprecated_dir, print_deprecated, dtext.
+    destruct (str_eqb r default_deprecation); [reflexivity|].
+    cbn [map join]. unfold pr_directive, pr_arguments, pr_argument. cbn [d_name d_args a_name a_val mk_name n_val map].
+    rewrite p_join_single. unfold p_wrap. cbn [pr_value pr_string is_empty app]. unfold json_string.
+    cbn [app lit str_of_string]. rewrite <- ?app_assoc. reflexivity.
+  Qed.
+
+  (* directives the options print in full *)
+  Definition dirs_ok (ds : list directive) : Prop :=
+    Forall good_dir (custom_dirs ds) /\ (po_custom o = CustomAll \/ custom_dirs ds = []).
+
+  Lemma print_directives_ok ds : dirs_ok ds -> print_directives o ds = dtext (custom_dirs ds).
+  Proof.
+    intros [Hg Hc].
+    assert (Hnil : custom_dirs ds = [] -> print_directives o ds = []).
+    { clear Hg Hc. unfold custom_dirs, print_directives. intros H. destruct (custom_enabled o); [|reflexivity].
+      assert (Hf : filter (fun d => include_custom o (n_val (d_name d))) ds = []).
+      { induction ds as [|d ds IH]; [reflexivity|]. cbn [filter] in *.
+        destruct (mem_str (n_val (d_name d)) specified_directive_names) eqn:Hm; cbn [negb] in H; [|discriminate].
+        unfold include_custom at 1. rewrite Hm. apply IH; exact H. }
+      rewrite Hf. reflexivity. }
+    destruct (custom_dirs ds) as [|d0 r0] eqn:Hcd; [apply Hnil; reflexivity|].
+    destruct Hc as [Hall|Hc]; [|discriminate]. clear Hnil.
+    unfold print_directives, custom_enabled. rewrite Hall. cbn [negb].
+    assert (Hf : filter (fun d => include_custom o (n_val (d_name d))) ds = custom_dirs ds).
+    { unfold custom_dirs. apply filter_ext. intros d. unfold include_custom. rewrite Hall.
+      destruct (mem_str (n_val (d_name d)) specified_directive_names); reflexivity. }
+    rewrite Hf, Hcd. unfold dtext. f_equal. f_equal. apply map_ext_in. intros d Hd.
+    unfold print_directive. apply good_dir_print. rewrite Forall_forall in Hg. apply Hg; exact Hd.
+  Qed.
+
+  (* ---- default values -------------------------------------------------- *)
+  Definition dflt_of (a : sivalue) : option value :=
+    match siv_default a with
+    | None => None
+    | Some v => match node_of_value print_fuel E0 v (siv_type a) with Ok n => Some (relex n) | _ => None end
+    end.
+
+  Definition dflt_ok (a : sivalue) : Prop :=
+    match siv_default a with
+    | None => True
+    | Some v => exists n, node_of_value print_fuel E0 v (siv_type a) = Ok n /\ good_value n
+    end.
+
+  Definition dflt_text (a : sivalue) : str :=
+    match dflt_of a with Some x => lit " = " ++ pr_value cf x | None => [] end.
+
+  Lemma dflt_text_facts a : dflt_ok a -> has_lf (dflt_text a) = false /\ lastok (dflt_text a).
+  Proof.
+    unfold dflt_ok, dflt_text, dflt_of. destruct (siv_default a) as [v|]; [|intros _; split; [reflexivity|apply lastok_nil]].
+    intros (n & Hn & Hg). rewrite Hn. rewrite (good_print cf cf n Hg).
+    destruct (good_value_text cf n Hg) as [H1 H2]. split; [rewrite has_lf_app, H1; reflexivity|].
+    destruct H2 as (T1 & _ & T3). intros _. rewrite last_app_ne by exact T1. exact T3.
+  Qed.
+
+  (* ---- input values ---------------------------------------------------- *)
+  Definition plain_siv (a : sivalue) : Prop :=
+    dflt_ok a /\ siv_desc a = None /\ dirs_ok (siv_dirs a)
+    /\ vname (siv_name a) /\ wf_tref (siv_type a).
+
+  Definition iv_of (a : sivalue) : input_value_def :=
+    IVDef None (mk_name (siv_name a)) (ty_of_tref (siv_type a)) (dflt_of a) (custom_dirs (siv_dirs a)) None.
+
+  Lemma ivdef_of_plain a : plain_siv a -> ivdef_of E0 a = Ok (iv_of a).
+  Proof.
+    intros (Hd & Hde & _). unfold ivdef_of, iv_of, dflt_of, dflt_ok in *. rewrite Hde.
+    destruct (siv_default a) as [v|]; [|reflexivity]. destruct Hd as (n & Hn & _). rewrite Hn. reflexivity.
+  Qed.
+
+  Definition iv_text (a : sivalue) : str :=
+    siv_name a ++ lit ": " ++ print_tref (siv_type a) ++ dflt_text a ++ dtext (custom_dirs (siv_dirs a)).
 
   Lemma iv_text_facts a : plain_siv a -> has_lf (iv_text a) = false /\ tight (iv_text a).
   Proof.
-    intros (_ & _ & _ & Hn & Ht). destruct (vname_nolf _ Hn) as (N1 & N2 & N3).
-    destruct (print_tref_facts _ Ht) as [T1 T2]. unfold iv_text. split.
-    - rewrite !has_lf_app, N1, T1. reflexivity.
-    - apply tight_mid; [apply nospace_tight; assumption|exact T2].
+    intros (Hd & _ & [Hg _] & Hn & Ht). destruct (vname_nolf _ Hn) as (N1 & N2 & N3).
+    destruct (print_tref_facts _ Ht) as [T1 T2]. destruct (dflt_text_facts a Hd) as [D1 D2].
+    destruct (dtext_facts _ Hg) as [C1 C2]. unfold iv_text. split.
+    - rewrite !has_lf_app, N1, T1, D1, C1. reflexivity.
+    - rewrite (app_assoc (siv_name a)), (app_assoc (siv_name a ++ lit ": ")).
+      apply tight_head_lastok; [|apply lastok_app; assumption].
+      rewrite <- app_assoc. apply tight_mid; [apply nospace_tight; assumption|exact T2].
   Qed.
 
-  Lemma print_input_value_plain a : plain_siv a -> print_input_value o E fuel a = Ok (iv_text a).
+  Lemma print_input_value_plain a : plain_siv a -> print_input_value o E print_fuel a = Ok (iv_text a).
   Proof.
-    intros Hp. pose proof Hp as (Hd & _ & Hn & _). unfold print_input_value. rewrite Hd. cbn [obind].
-    rewrite (print_directives_nodirs _ Hn), !app_nil_r. f_equal.
+    intros Hp. pose proof Hp as (Hd & _ & Hdirs & _). unfold print_input_value.
+    assert (Hdf : match siv_default a with
+                  | None => Ok []
+                  | Some v => do n <- node_of_value print_fuel E v (siv_type a); Ok (lit " = " ++ print_value n)
+                  end = Ok (dflt_text a)).
+    { unfold dflt_text, dflt_of, dflt_ok in *. destruct (siv_default a) as [v|]; [|reflexivity].
+      destruct Hd as (n & Hn & Hg). rewrite (node_env_mono E0 E Hext _ _ _ _ Hn), Hn. cbn [obind].
+      unfold print_value. rewrite (good_print cf vcfg n Hg). reflexivity. }
+    rewrite Hdf. cbn [obind]. rewrite (print_directives_ok _ Hdirs). f_equal.
     exact (proj1 (strip_tight _ (proj2 (iv_text_facts a Hp)))).
   Qed.
 
-  Lemma pr_input_value_plain a : pr_input_value_def cf (iv_of a) = iv_text a.
+  Lemma pr_input_value_plain a : plain_siv a -> pr_input_value_def cf (iv_of a) = iv_text a.
   Proof.
-    unfold pr_input_value_def, iv_of, iv_text. cbn [iv_name iv_type iv_default iv_dirs mk_name n_val].
-    rewrite <- print_tref_pr_type. unfold pr_directives. cbn [map]. unfold p_wrap at 1 2.
-    change (p_join [] (lit " ")) with (@nil N). cbn [is_empty].
-    rewrite !p_join_nosep. cbn [concat]. rewrite !app_nil_r. reflexivity.
+    intros (Hd & _). unfold pr_input_value_def, iv_of, iv_text. cbn [iv_name iv_type iv_default iv_dirs mk_name n_val].
+    rewrite <- print_tref_pr_type, wrap_dirs, !p_join_nosep. cbn [concat]. rewrite !app_nil_r.
+    unfold dflt_text. unfold dflt_ok, dflt_of in *. destruct (siv_default a) as [v|]; [|rewrite <- !app_assoc; reflexivity].
+    destruct Hd as (n & Hn & Hg). rewrite Hn.
+    destruct (good_value_text cf n Hg) as [_ (Hne & _)]. rewrite <- (good_print cf cf n Hg) in Hne.
+    unfold p_wrap. destruct (pr_value cf (relex n)); [congruence|]. cbn [is_empty]. rewrite app_nil_r, <- !app_assoc. reflexivity.
   Qed.
 
   (* arguments, inline *)
@@ -217,14 +280,6 @@ Section Texts.
     | [] => []
     | _ => lit "(" ++ join (lit ", ") (map iv_text args) ++ lit ")"
     end.
-
-  Lemma has_lf_join sep (l : list str) :
-    has_lf sep = false -> Forall (fun x => has_lf x = false) l -> has_lf (join sep l) = false.
-  Proof.
-    intros Hs H. induction H as [|x l Hx Hl IH]; [reflexivity|].
-    destruct l as [|y l]; [exact Hx|]. change (join sep (x :: y :: l)) with (x ++ sep ++ join sep (y :: l)).
-    rewrite !has_lf_app, Hx, Hs, IH. reflexivity.
-  Qed.
 
   Lemma args_text_nolf args : Forall plain_siv args -> has_lf (args_text args) = false.
   Proof.
@@ -244,12 +299,12 @@ Section Texts.
   Qed.
 
   Lemma print_arguments_plain args depth :
-    Forall plain_siv args -> print_arguments o E fuel args depth = Ok (args_text args).
+    Forall plain_siv args -> print_arguments o E print_fuel args depth = Ok (args_text args).
   Proof.
     intros H. unfold print_arguments, args_text. destruct args as [|a r]; [reflexivity|].
     rewrite (no_arg_descs _ H), Bool.andb_false_r.
-    assert (Ho : omap (print_input_value o E fuel) (a :: r) = Ok (map iv_text (a :: r))).
-    { clear -H. induction H as [|x l Hx Hl IH]; [reflexivity|]. cbn [omap map].
+    assert (Ho : omap (print_input_value o E print_fuel) (a :: r) = Ok (map iv_text (a :: r))).
+    { clear -H Hext. induction H as [|x l Hx Hl IH]; [reflexivity|]. cbn [omap map].
       rewrite (print_input_value_plain x Hx). cbn [obind]. rewrite IH. reflexivity. }
     rewrite Ho. reflexivity.
   Qed.
@@ -257,7 +312,7 @@ Section Texts.
   Lemma pr_arg_defs_plain args : Forall plain_siv args -> pr_arg_defs cf (map iv_of args) = args_text args.
   Proof.
     intros H. unfold pr_arg_defs, args_text. rewrite map_map.
-    rewrite (map_ext _ iv_text) by (intros; apply pr_input_value_plain).
+    rewrite (map_ext_in _ iv_text) by (intros a Ha; rewrite Forall_forall in H; apply pr_input_value_plain; auto).
     assert (Hn : existsb has_lf (map iv_text args) = false).
     { clear -H. induction H as [|x l Hx Hl IH]; [reflexivity|]. cbn [map existsb].
       rewrite (proj1 (iv_text_facts x Hx)), IH. reflexivity. }
@@ -270,72 +325,7 @@ Section Texts.
       rewrite Forall_forall in H. apply (proj2 (iv_text_facts b (H b Hb))).
   Qed.
 
-  (* deprecations *)
-  Lemma json_char_nolf c : has_lf (PrinterModel.json_char c) = false.
-  Proof.
-    unfold PrinterModel.json_char, PrinterModel.QUOTE, PrinterModel.BSLASH.
-    assert (Hh : forall n, (PrinterModel.hex_digit n =? 10)%N = false).
-    { intros n. unfold PrinterModel.hex_digit. destruct (n <? 10)%N; apply N.eqb_neq; lia. }
-    destruct (c =? 34)%N; [reflexivity|]. destruct (c =? 92)%N; [reflexivity|].
-    destruct (c =? 10)%N eqn:H10; [reflexivity|]. destruct (c =? 13)%N; [reflexivity|].
-    destruct (c =? 9)%N; [reflexivity|]. destruct (c =? 8)%N; [reflexivity|]. destruct (c =? 12)%N; [reflexivity|].
-    destruct (c <? 32)%N.
-    - unfold has_lf; cbn [existsb]. unfold PrinterModel.LF. rewrite !Hh. reflexivity.
-    - unfold has_lf; cbn [existsb]. unfold PrinterModel.LF. rewrite H10. reflexivity.
-  Qed.
-
-  Lemma json_quote_nolf r : has_lf (json_quote r) = false.
-  Proof.
-    unfold json_quote.
-    assert (H : has_lf (flat_map PrinterModel.json_char r) = false).
-    { induction r as [|c r IH]; [reflexivity|]. cbn [flat_map]. rewrite has_lf_app, json_char_nolf, IH. reflexivity. }
-    change (PrinterModel.QUOTE :: flat_map PrinterModel.json_char r ++ [PrinterModel.QUOTE])
-      with ([PrinterModel.QUOTE] ++ flat_map PrinterModel.json_char r ++ [PrinterModel.QUOTE]).
-    rewrite !has_lf_app, H. reflexivity.
-  Qed.
-
-  Lemma deprecated_text dep :
-    p_wrap (lit " ") (pr_directives cf (deprecated_dir dep)) [] = print_deprecated dep
-    /\ has_lf (print_deprecated dep) = false
-    /\ (print_deprecated dep <> [] -> py_space (last (print_deprecated dep) 0%N) = false).
-  Proof.
-    destruct dep as [r|]; [|repeat split; try reflexivity; intros H; congruence].
-    unfold deprecated_dir, print_deprecated.
-    destruct (str_eqb r default_deprecation).
-    - repeat split; try reflexivity.
-    - unfold pr_directives, pr_directive, pr_arguments, pr_argument. cbn [map d_name d_args a_name a_val mk_name n_val].
-      unfold json_string. cbn [pr_value pr_string].
-      repeat split.
-      + unfold p_join; cbn [filter is_empty negb join_ne]. unfold p_wrap. cbn [is_empty app].
-        rewrite ?app_nil_r. cbn [app]. rewrite <- ?app_assoc. cbn [app]. reflexivity.
-      + rewrite !has_lf_app, json_quote_nolf. reflexivity.
-      + intros _. rewrite !app_assoc, last_app_ne by discriminate. reflexivity.
-  Qed.
-
-  (* generic pieces *)
-  Lemma imap_ok {A B} (f : nat -> A -> outcome B) (g : A -> B) l :
-    (forall i x, In x l -> f i x = Ok (g x)) -> imap f l = Ok (map g l).
-  Proof.
-    unfold imap. generalize 0. induction l as [|x l IH]; intros n H; [reflexivity|].
-    rewrite (H n x (or_introl eq_refl)). cbn [obind].
-    rewrite IH by (intros; apply H; right; assumption). reflexivity.
-  Qed.
-
-  Lemma join_ne_ne (l : list str) sep : l <> [] -> Forall (fun x => x <> []) l -> join sep l <> [].
-  Proof.
-    intros Hne H. destruct l as [|x l]; [congruence|]. inversion H; subst.
-    destruct l; cbn [join]; [assumption|]. intros He. apply app_eq_nil in He. tauto.
-  Qed.
-
-  Lemma p_join_skip l sep : p_join ([] :: l) sep = p_join l sep.
-  Proof. reflexivity. Qed.
-
-  Lemma p_join_keep x l sep : x <> [] -> p_join (x :: l) sep = x ++ p_wrap sep (p_join l sep) [].
-  Proof.
-    intros Hx. rewrite p_join_cons. destruct x as [|c r]; [congruence|]. cbn [is_empty].
-    unfold p_wrap. destruct (p_join l sep); cbn [is_empty]; rewrite ?app_nil_r; reflexivity.
-  Qed.
-
+  (* ---- blocks --------------------------------------------------------- *)
   Lemma block_text (texts : list str) :
     texts <> [] -> Forall (fun t => t <> [] /\ has_lf t = false) texts ->
     p_block texts (po_indent o)
@@ -350,29 +340,46 @@ Section Texts.
     rewrite Forall_forall in H. destruct (H y Hy) as [Hy1 _]. intros He. apply app_eq_nil in He. tauto.
   Qed.
 
-  (* fields *)
+  Definition block_of (texts : list str) : str :=
+    lit " {" ++ nl ++ join nl (map (fun t => po_indent o ++ t) texts) ++ nl ++ lit "}".
+
+  Lemma sp_block texts :
+    texts <> [] -> Forall (fun t => t <> [] /\ has_lf t = false) texts ->
+    sp (p_block texts (po_indent o)) = block_of texts.
+  Proof.
+    intros Hne H. rewrite (block_text texts Hne H). reflexivity.
+  Qed.
+
+  Lemma sp_ne x : x <> [] -> sp x = lit " " ++ x.
+  Proof. intros H. unfold sp. destruct x; [congruence|reflexivity]. Qed.
+
+  (* ---- fields ---------------------------------------------------------- *)
   Definition plain_sf (f : sfield) : Prop :=
-    sf_desc f = None /\ nodirs (sf_dirs f) /\ vname (sf_name f) /\ wf_tref (sf_type f)
+    sf_desc f = None /\ dirs_ok (sf_dirs f) /\ vname (sf_name f) /\ wf_tref (sf_type f)
     /\ Forall plain_siv (sf_args f).
 
-  Definition fd_of (f : sfield) : field_def :=
-    FDef None (mk_name (sf_name f)) (map iv_of (sf_args f)) (ty_of_tref (sf_type f))
-         (deprecated_dir (sf_dep f)) None.
+  Definition fdirs (f : sfield) : list directive := deprecated_dir (sf_dep f) ++ custom_dirs (sf_dirs f).
 
-  Lemma omap_ivdefs args : Forall plain_siv args -> omap (ivdef_of E) args = Ok (map iv_of args).
+  Definition fd_of (f : sfield) : field_def :=
+    FDef None (mk_name (sf_name f)) (map iv_of (sf_args f)) (ty_of_tref (sf_type f)) (fdirs f) None.
+
+  Lemma omap_ivdefs args : Forall plain_siv args -> omap (ivdef_of E0) args = Ok (map iv_of args).
   Proof.
     induction 1 as [|a l Ha Hl IH]; [reflexivity|]. cbn [omap map].
-    rewrite (ivdef_of_plain E a Ha). cbn [obind]. rewrite IH. reflexivity.
+    rewrite (ivdef_of_plain a Ha). cbn [obind]. rewrite IH. reflexivity.
   Qed.
 
-  Lemma fdef_of_plain f : plain_sf f -> fdef_of E f = Ok (fd_of f).
+  Lemma fdef_of_plain f : plain_sf f -> fdef_of E0 f = Ok (fd_of f).
   Proof.
-    intros (Hd & Hn & _ & _ & Ha). unfold fdef_of, fd_of. rewrite (omap_ivdefs _ Ha). cbn [obind].
-    rewrite Hd. unfold nodirs in Hn. rewrite Hn, app_nil_r. reflexivity.
+    intros (Hd & _ & _ & _ & Ha). unfold fdef_of, fd_of, fdirs. rewrite (omap_ivdefs _ Ha). cbn [obind].
+    rewrite Hd. reflexivity.
   Qed.
+
+  Lemma good_fdirs dep ds : dirs_ok ds -> Forall good_dir (deprecated_dir dep ++ custom_dirs ds).
+  Proof. intros [Hg _]. apply Forall_app; split; [apply good_deprecated|exact Hg]. Qed.
 
   Definition ft (f : sfield) : str :=
-    sf_name f ++ args_text (sf_args f) ++ lit ": " ++ print_tref (sf_type f) ++ print_deprecated (sf_dep f).
+    sf_name f ++ args_text (sf_args f) ++ lit ": " ++ print_tref (sf_type f) ++ dtext (fdirs f).
 
   Lemma ft_facts f : plain_sf f ->
     pr_field_def cf (fd_of f) = ft f /\ has_lf (ft f) = false /\ ft f <> []
@@ -380,71 +387,69 @@ Section Texts.
   Proof.
     intros (Hd & Hn & Hname & Ht & Ha).
     destruct (vname_nolf _ Hname) as (N1 & N2 & N3). destruct (print_tref_facts _ Ht) as [T1 (T2 & T3 & T4)].
-    destruct (deprecated_text (sf_dep f)) as (D1 & D2 & D3).
+    destruct (dtext_facts _ (good_fdirs (sf_dep f) _ Hn)) as (D2 & D3). fold (fdirs f) in D2, D3.
     repeat split.
     - unfold pr_field_def, fd_of, ft. cbn [fd_name fd_args fd_type fd_dirs mk_name n_val].
-      rewrite p_join_nosep. cbn [concat]. rewrite (pr_arg_defs_plain _ Ha), <- print_tref_pr_type, D1, app_nil_r.
+      rewrite p_join_nosep. cbn [concat]. rewrite (pr_arg_defs_plain _ Ha), <- print_tref_pr_type, wrap_dirs, app_nil_r.
       reflexivity.
     - unfold ft. rewrite !has_lf_app, N1, (args_text_nolf _ Ha), T1, D2. reflexivity.
     - unfold ft. intros He. apply app_eq_nil in He. tauto.
-    - unfold ft. destruct (print_deprecated (sf_dep f)) as [|c r] eqn:Hdep.
+    - unfold ft. destruct (dtext (fdirs f)) as [|c r] eqn:Hdep.
       + rewrite app_nil_r, !app_assoc, last_app_ne by exact T2. exact T4.
       + rewrite !app_assoc, last_app_ne by discriminate. apply D3. discriminate.
   Qed.
 
   Lemma print_fields_plain fs :
     Forall plain_sf fs ->
-    print_fields o E fuel fs = Ok (join nl (map (fun f => po_indent o ++ ft f) fs)).
+    print_fields o E print_fuel fs = Ok (join nl (map (fun f => po_indent o ++ ft f) fs)).
   Proof.
     intros H. unfold print_fields.
     rewrite (imap_ok _ (fun f => po_indent o ++ ft f)); [reflexivity|].
     intros i f Hf. rewrite Forall_forall in H. pose proof (H f Hf) as Hp.
     destruct Hp as (Hd & Hn & _ & _ & Ha). rewrite (print_arguments_plain _ 1 Ha). cbn [obind].
-    rewrite Hd. cbn [print_description app]. rewrite (print_directives_nodirs _ Hn), app_nil_r. f_equal.
+    rewrite Hd. cbn [print_description app]. rewrite (print_directives_ok _ Hn), <- dtext_deprecated, <- dtext_app.
+    fold (fdirs f). f_equal.
     destruct (ft_facts f (H f Hf)) as (_ & _ & Hne & Hl).
     change (po_indent o ++ sf_name f ++ args_text (sf_args f) ++ lit ": " ++ print_tref (sf_type f)
-            ++ print_deprecated (sf_dep f)) with (po_indent o ++ ft f).
+            ++ dtext (fdirs f)) with (po_indent o ++ ft f).
     apply rstrip_id.
     - intros He. apply app_eq_nil in He. tauto.
     - rewrite last_app_ne by exact Hne. exact Hl.
   Qed.
 
-  (* enum values *)
+  (* ---- enum values ----------------------------------------------------- *)
   Definition plain_sev (v : sevalue) : Prop :=
-    sev_desc v = None /\ nodirs (sev_dirs v) /\ vname (sev_name v) /\ ~ is_reserved (sev_name v).
+    sev_desc v = None /\ dirs_ok (sev_dirs v) /\ vname (sev_name v) /\ ~ is_reserved (sev_name v).
+
+  Definition edirs (v : sevalue) : list directive := deprecated_dir (sev_dep v) ++ custom_dirs (sev_dirs v).
 
   Definition ev_of (v : sevalue) : enum_value_def :=
-    EVDef None (mk_name (sev_name v)) (deprecated_dir (sev_dep v)) None.
+    EVDef None (mk_name (sev_name v)) (edirs v) None.
 
   Lemma evdef_of_plain v : plain_sev v -> evdef_of v = ev_of v.
-  Proof.
-    intros (Hd & Hn & _). unfold evdef_of, ev_of. rewrite Hd. unfold nodirs in Hn. rewrite Hn, app_nil_r. reflexivity.
-  Qed.
+  Proof. intros (Hd & _). unfold evdef_of, ev_of, edirs. rewrite Hd. reflexivity. Qed.
 
-  Definition et (v : sevalue) : str := sev_name v ++ print_deprecated (sev_dep v).
-
-  Lemma p_join_single (x sep : str) : p_join [x] sep = x.
-  Proof. unfold p_join. destruct x; reflexivity. Qed.
+  Definition et (v : sevalue) : str := sev_name v ++ dtext (edirs v).
 
   Lemma et_facts v : plain_sev v ->
     pr_enum_value_def cf (ev_of v) = et v /\ has_lf (et v) = false /\ et v <> []
     /\ py_space (last (et v) 0%N) = false.
   Proof.
-    intros (_ & _ & Hname & _). destruct (vname_nolf _ Hname) as (N1 & N2 & N3).
-    destruct (deprecated_text (sev_dep v)) as (D1 & D2 & D3).
+    intros (_ & Hn & Hname & _). destruct (vname_nolf _ Hname) as (N1 & N2 & N3).
+    destruct (dtext_facts _ (good_fdirs (sev_dep v) _ Hn)) as (D2 & D3). fold (edirs v) in D2, D3.
     repeat split.
     - unfold pr_enum_value_def, ev_of, et. cbn [ev_name ev_dirs mk_name n_val].
-      rewrite (p_join_keep _ _ _ N3), p_join_single, D1. reflexivity.
+      rewrite (p_join_sp _ _ N3). cbn [map concat]. rewrite sp_dirs, app_nil_r. reflexivity.
     - unfold et. rewrite has_lf_app, N1, D2. reflexivity.
     - unfold et. intros He. apply app_eq_nil in He. tauto.
-    - unfold et. destruct (print_deprecated (sev_dep v)) as [|c r] eqn:Hdep.
+    - unfold et. destruct (dtext (edirs v)) as [|c r] eqn:Hdep.
       + rewrite app_nil_r. apply (nospace_tight _ N3 N2).
       + rewrite last_app_ne by discriminate. apply D3. discriminate.
   Qed.
 
-  (* the six kinds *)
+  (* ---- the six kinds --------------------------------------------------- *)
   Definition plain_tdef (t : tdef) : Prop :=
-    tdef_desc t = None /\ nodirs (tdef_dirs t) /\ vname (tdef_name t) /\
+    tdef_desc t = None /\ dirs_ok (tdef_dirs t) /\ vname (tdef_name t) /\
     match t with
     | TScalar _ _ _ => True
     | TObject _ _ is_ fs _ => fs <> [] /\ Forall plain_sf fs /\ Forall (fun n => vname n) is_
@@ -456,24 +461,25 @@ Section Texts.
 
   Definition def1_of (t : tdef) : definition :=
     match t with
-    | TScalar n _ _ => DScalar false None (mk_name n) [] None
-    | TObject n _ is_ fs _ => DObject false None (mk_name n) (map named_ty is_) [] (map fd_of fs) None
-    | TInterface n _ fs _ => DInterface false None (mk_name n) [] (map fd_of fs) None
-    | TUnion n _ ms _ => DUnion false None (mk_name n) [] (map named_ty ms) None
-    | TEnum n _ vs _ => DEnum false None (mk_name n) [] (map ev_of vs) None
-    | TInput n _ fs _ => DInput false None (mk_name n) [] (map iv_of fs) None
+    | TScalar n _ ds => DScalar false None (mk_name n) (custom_dirs ds) None
+    | TObject n _ is_ fs ds =>
+        DObject false None (mk_name n) (map named_ty is_) (custom_dirs ds) (map fd_of fs) None
+    | TInterface n _ fs ds => DInterface false None (mk_name n) (custom_dirs ds) (map fd_of fs) None
+    | TUnion n _ ms ds => DUnion false None (mk_name n) (custom_dirs ds) (map named_ty ms) None
+    | TEnum n _ vs ds => DEnum false None (mk_name n) (custom_dirs ds) (map ev_of vs) None
+    | TInput n _ fs ds => DInput false None (mk_name n) (custom_dirs ds) (map iv_of fs) None
     end.
 
-  Lemma omap_fdefs fs : Forall plain_sf fs -> omap (fdef_of E) fs = Ok (map fd_of fs).
+  Lemma omap_fdefs fs : Forall plain_sf fs -> omap (fdef_of E0) fs = Ok (map fd_of fs).
   Proof.
     induction 1 as [|a l Ha Hl IH]; [reflexivity|]. cbn [omap map].
     rewrite (fdef_of_plain a Ha). cbn [obind]. rewrite IH. reflexivity.
   Qed.
 
-  Lemma def_of_tdef_plain t : plain_tdef t -> def_of_tdef E t = Ok (def1_of t).
+  Lemma def_of_tdef_plain t : plain_tdef t -> def_of_tdef E0 t = Ok (def1_of t).
   Proof.
-    intros (Hd & Hn & _ & Hk). unfold nodirs in Hn.
-    destruct t; cbn [tdef_desc tdef_dirs] in *; subst; cbn [def_of_tdef def1_of strval_of]; rewrite Hn.
+    intros (Hd & _ & _ & Hk).
+    destruct t; cbn [tdef_desc tdef_dirs] in *; subst; cbn [def_of_tdef def1_of strval_of].
     - reflexivity.
     - destruct Hk as (_ & Hf & _). rewrite (omap_fdefs _ Hf). reflexivity.
     - destruct Hk as (_ & Hf). rewrite (omap_fdefs _ Hf). reflexivity.
@@ -483,34 +489,31 @@ Section Texts.
     - destruct Hk as (_ & Hf). rewrite (omap_ivdefs _ Hf). reflexivity.
   Qed.
 
-  Definition block_of (texts : list str) : str :=
-    lit " {" ++ nl ++ join nl (map (fun t => po_indent o ++ t) texts) ++ nl ++ lit "}".
-
   Definition type_text (t : tdef) : str :=
     match t with
-    | TScalar n _ _ => lit "scalar " ++ n
-    | TObject n _ is_ fs _ =>
+    | TScalar n _ ds => lit "scalar " ++ n ++ dtext (custom_dirs ds)
+    | TObject n _ is_ fs ds =>
         lit "type " ++ n ++ (match is_ with [] => [] | _ => lit " implements " ++ join (lit " & ") is_ end)
-        ++ block_of (map ft fs)
-    | TInterface n _ fs _ => lit "interface " ++ n ++ block_of (map ft fs)
-    | TUnion n _ ms _ => lit "union " ++ n ++ lit " = " ++ join (lit " | ") ms
-    | TEnum n _ vs _ => lit "enum " ++ n ++ block_of (map et vs)
-    | TInput n _ fs _ => lit "input " ++ n ++ block_of (map iv_text fs)
+        ++ dtext (custom_dirs ds) ++ block_of (map ft fs)
+    | TInterface n _ fs ds => lit "interface " ++ n ++ dtext (custom_dirs ds) ++ block_of (map ft fs)
+    | TUnion n _ ms ds => lit "union " ++ n ++ dtext (custom_dirs ds) ++ lit " = " ++ join (lit " | ") ms
+    | TEnum n _ vs ds => lit "enum " ++ n ++ dtext (custom_dirs ds) ++ block_of (map et vs)
+    | TInput n _ fs ds => lit "input " ++ n ++ dtext (custom_dirs ds) ++ block_of (map iv_text fs)
     end.
 
-  Lemma print_type_plain t : plain_tdef t -> print_type o E fuel t = Ok (type_text t).
+  Lemma print_type_plain t : plain_tdef t -> print_type o E print_fuel t = Ok (type_text t).
   Proof.
     intros (Hd & Hn & _ & Hk).
     destruct t; cbn [tdef_desc tdef_dirs] in *; subst; cbn [print_type type_text print_description];
-      rewrite (print_directives_nodirs _ Hn).
-    - rewrite app_nil_r. reflexivity.
+      rewrite (print_directives_ok _ Hn).
+    - reflexivity.
     - destruct Hk as (_ & Hf & _). rewrite (print_fields_plain _ Hf). cbn [obind app].
       unfold block_of. rewrite map_map. rewrite <- ?app_assoc. reflexivity.
     - destruct Hk as (_ & Hf). rewrite (print_fields_plain _ Hf). cbn [obind app].
       unfold block_of. rewrite map_map. rewrite <- ?app_assoc. reflexivity.
     - cbn [app]. rewrite <- ?app_assoc. reflexivity.
     - destruct Hk as (_ & Hv). cbn [app]. unfold block_of. rewrite map_map. do 2 f_equal.
-      rewrite <- ?app_assoc. do 4 f_equal.
+      rewrite <- ?app_assoc. do 5 f_equal.
       assert (Hl : forall vs0 i, Forall plain_sev vs0 ->
                  (fix go (i : nat) (vs : list sevalue) : list str :=
                     match vs with
@@ -523,9 +526,9 @@ Section Texts.
       { clear Hv. intros vs. induction vs as [|v vs IH]; intros i H; [reflexivity|]. inversion H as [|? ? Hv Hr]; subst.
         rewrite (IH (S i) Hr). cbn [map]. f_equal.
         pose proof Hv as (Hd' & Hn' & _). rewrite Hd'. cbn [print_description app].
-        rewrite (print_directives_nodirs _ Hn'), app_nil_r.
+        rewrite (print_directives_ok _ Hn'), <- dtext_deprecated, <- dtext_app. fold (edirs v).
         destruct (et_facts v Hv) as (_ & _ & Hne & Hl).
-        change (po_indent o ++ sev_name v ++ print_deprecated (sev_dep v)) with (po_indent o ++ et v).
+        change (po_indent o ++ sev_name v ++ dtext (edirs v)) with (po_indent o ++ et v).
         apply rstrip_id; [intros He; apply app_eq_nil in He; tauto|].
         rewrite last_app_ne by exact Hne. exact Hl. }
       rewrite (Hl _ 0 Hv). reflexivity.
@@ -546,55 +549,38 @@ Section Texts.
     apply (vname_nolf n (H n Hn)).
   Qed.
 
-  Lemma block_of_text texts :
-    texts <> [] -> Forall (fun t => t <> [] /\ has_lf t = false) texts ->
-    lit " " ++ p_block texts (po_indent o) = block_of texts.
-  Proof. intros Hne H. rewrite (block_text texts Hne H). reflexivity. Qed.
-
-  Lemma block_ne texts : texts <> [] -> p_block texts (po_indent o) <> [].
-  Proof. intros H. unfold p_block. destruct texts; [congruence|discriminate]. Qed.
-
-  Lemma p_join_filter l sep : p_join l sep = join sep (filter (fun x => negb (is_empty x)) l).
-  Proof. unfold p_join; apply join_ne_join. Qed.
-
   Lemma fields_block fs :
     fs <> [] -> Forall plain_sf fs ->
-    lit " " ++ p_block (map (pr_field_def cf) (map fd_of fs)) (c_indent cf) = block_of (map ft fs)
-    /\ p_block (map (pr_field_def cf) (map fd_of fs)) (c_indent cf) <> [].
+    sp (p_block (map (pr_field_def cf) (map fd_of fs)) (c_indent cf)) = block_of (map ft fs).
   Proof.
     intros Hne Hf.
     assert (Hb : map (pr_field_def cf) (map fd_of fs) = map ft fs).
     { rewrite map_map. apply map_ext_in. intros f Hfin. rewrite Forall_forall in Hf. apply (ft_facts f (Hf f Hfin)). }
-    rewrite Hb. split; [|apply block_ne; destruct fs; [congruence|discriminate]].
-    apply block_of_text; [destruct fs; [congruence|discriminate]|].
+    rewrite Hb. apply sp_block; [destruct fs; [congruence|discriminate]|].
     apply Forall_forall; intros x Hx. apply in_map_iff in Hx. destruct Hx as [f [<- Hfin]].
     rewrite Forall_forall in Hf. destruct (ft_facts f (Hf f Hfin)) as (_ & H1 & H2 & _). auto.
   Qed.
 
   Lemma values_block vs :
     vs <> [] -> Forall plain_sev vs ->
-    lit " " ++ p_block (map (pr_enum_value_def cf) (map ev_of vs)) (c_indent cf) = block_of (map et vs)
-    /\ p_block (map (pr_enum_value_def cf) (map ev_of vs)) (c_indent cf) <> [].
+    sp (p_block (map (pr_enum_value_def cf) (map ev_of vs)) (c_indent cf)) = block_of (map et vs).
   Proof.
     intros Hne Hf.
     assert (Hb : map (pr_enum_value_def cf) (map ev_of vs) = map et vs).
     { rewrite map_map. apply map_ext_in. intros f Hfin. rewrite Forall_forall in Hf. apply (et_facts f (Hf f Hfin)). }
-    rewrite Hb. split; [|apply block_ne; destruct vs; [congruence|discriminate]].
-    apply block_of_text; [destruct vs; [congruence|discriminate]|].
+    rewrite Hb. apply sp_block; [destruct vs; [congruence|discriminate]|].
     apply Forall_forall; intros x Hx. apply in_map_iff in Hx. destruct Hx as [f [<- Hfin]].
     rewrite Forall_forall in Hf. destruct (et_facts f (Hf f Hfin)) as (_ & H1 & H2 & _). auto.
   Qed.
 
   Lemma ifields_block fs :
     fs <> [] -> Forall plain_siv fs ->
-    lit " " ++ p_block (map (pr_input_value_def cf) (map iv_of fs)) (c_indent cf) = block_of (map iv_text fs)
-    /\ p_block (map (pr_input_value_def cf) (map iv_of fs)) (c_indent cf) <> [].
+    sp (p_block (map (pr_input_value_def cf) (map iv_of fs)) (c_indent cf)) = block_of (map iv_text fs).
   Proof.
     intros Hne Hf.
     assert (Hb : map (pr_input_value_def cf) (map iv_of fs) = map iv_text fs).
-    { rewrite map_map. apply map_ext. intros f. apply pr_input_value_plain. }
-    rewrite Hb. split; [|apply block_ne; destruct fs; [congruence|discriminate]].
-    apply block_of_text; [destruct fs; [congruence|discriminate]|].
+    { rewrite map_map. apply map_ext_in. intros f Hfin. rewrite Forall_forall in Hf. apply pr_input_value_plain; auto. }
+    rewrite Hb. apply sp_block; [destruct fs; [congruence|discriminate]|].
     apply Forall_forall; intros x Hx. apply in_map_iff in Hx. destruct Hx as [f [<- Hfin]].
     rewrite Forall_forall in Hf. destruct (iv_text_facts f (Hf f Hfin)) as (H1 & H2 & _). auto.
   Qed.
@@ -604,39 +590,31 @@ Section Texts.
     intros (_ & _ & Hname & Hk). destruct (vname_nolf _ Hname) as (_ & _ & Hne).
     destruct t as [n d ds|n d ifaces fs ds|n d fs ds|n d members ds|n d vs ds|n d fs ds];
       cbn [tdef_name] in *; cbn [def1_of pr_definition with_desc type_text mk_name n_val kw];
-      destruct n as [|c0 n]; try congruence;
-      change (pr_directives cf []) with (@nil N); rewrite p_join_filter.
-    - reflexivity.
-    - destruct Hk as (Hfne & Hf & Hi). destruct (fields_block fs Hfne Hf) as [Hb Hbn].
-      rewrite (names_join _ _ Hi).
-      destruct (p_block (map (pr_field_def cf) (map fd_of fs)) (c_indent cf)) as [|b0 br] eqn:Hbe; [congruence|].
-      rewrite <- Hb. destruct ifaces as [|i0 ir].
-      + cbn [join p_wrap is_empty filter negb]. cbn [join app lit str_of_string]. reflexivity.
+      rewrite p_join_sp by discriminate; cbn [map concat]; rewrite sp_dirs, (sp_ne n Hne), app_nil_r.
+    - cbn [app lit str_of_string]. rewrite <- ?app_assoc. reflexivity.
+    - destruct Hk as (Hfne & Hf & Hi). rewrite (fields_block fs Hfne Hf), (names_join _ _ Hi).
+      destruct ifaces as [|i0 ir].
+      + cbn [join p_wrap is_empty sp app lit str_of_string]. rewrite <- ?app_assoc. reflexivity.
       + assert (Hj : join (lit " & ") (i0 :: ir) <> []).
         { apply join_ne_ne; [discriminate|]. apply Forall_forall; intros x Hx. rewrite Forall_forall in Hi.
           apply (vname_nolf x (Hi x Hx)). }
         unfold p_wrap. destruct (join (lit " & ") (i0 :: ir)) as [|j0 jr] eqn:Hje; [congruence|].
-        cbn [is_empty filter negb app lit str_of_string]. cbn [join]. rewrite app_nil_r.
-        cbn [app]. rewrite <- ?app_assoc. reflexivity.
-    - destruct Hk as (Hfne & Hf). destruct (fields_block fs Hfne Hf) as [Hb Hbn].
-      destruct (p_block (map (pr_field_def cf) (map fd_of fs)) (c_indent cf)) as [|b0 br] eqn:Hbe; [congruence|].
-      rewrite <- Hb. cbn [filter is_empty negb join app lit str_of_string]. reflexivity.
+        cbn [is_empty sp app lit str_of_string]. rewrite app_nil_r. cbn [app]. rewrite <- ?app_assoc. reflexivity.
+    - destruct Hk as (Hfne & Hf). rewrite (fields_block fs Hfne Hf).
+      cbn [app lit str_of_string]. rewrite <- ?app_assoc. reflexivity.
     - destruct Hk as (Hmne & Hm). rewrite (names_join _ _ Hm).
       assert (Hj : join (lit " | ") members <> []).
       { apply join_ne_ne; [exact Hmne|]. apply Forall_forall; intros x Hx. rewrite Forall_forall in Hm.
         apply (vname_nolf x (Hm x Hx)). }
       unfold p_wrap. destruct (join (lit " | ") members) as [|j0 jr] eqn:Hje; [congruence|].
-      cbn [is_empty filter negb app lit str_of_string join]. rewrite app_nil_r. cbn [app].
-      rewrite <- ?app_assoc. reflexivity.
-    - destruct Hk as (Hvne & Hv). destruct (values_block vs Hvne Hv) as [Hb Hbn].
-      destruct (p_block (map (pr_enum_value_def cf) (map ev_of vs)) (c_indent cf)) as [|b0 br] eqn:Hbe; [congruence|].
-      rewrite <- Hb. cbn [filter is_empty negb join app lit str_of_string]. reflexivity.
-    - destruct Hk as (Hfne & Hf). destruct (ifields_block fs Hfne Hf) as [Hb Hbn].
-      destruct (p_block (map (pr_input_value_def cf) (map iv_of fs)) (c_indent cf)) as [|b0 br] eqn:Hbe; [congruence|].
-      rewrite <- Hb. cbn [filter is_empty negb join app lit str_of_string]. reflexivity.
+      cbn [is_empty sp app lit str_of_string]. rewrite app_nil_r. cbn [app]. rewrite <- ?app_assoc. reflexivity.
+    - destruct Hk as (Hvne & Hv). rewrite (values_block vs Hvne Hv).
+      cbn [app lit str_of_string]. rewrite <- ?app_assoc. reflexivity.
+    - destruct Hk as (Hfne & Hf). rewrite (ifields_block fs Hfne Hf).
+      cbn [app lit str_of_string]. rewrite <- ?app_assoc. reflexivity.
   Qed.
 
-  (* directive definitions *)
+  (* ---- directive definitions ----------------------------------------- *)
   Definition plain_ddef (d : ddef) : Prop :=
     dd_desc d = None /\ vname (dd_name d) /\ Forall plain_siv (dd_args d)
     /\ dd_locs d <> [] /\ Forall (fun l => vname l) (dd_locs d).
@@ -647,13 +625,13 @@ Section Texts.
   Definition ddef_text (d : ddef) : str :=
     lit "directive @" ++ dd_name d ++ args_text (dd_args d) ++ lit " on " ++ join (lit " | ") (dd_locs d).
 
-  Lemma def_of_ddef_plain d : plain_ddef d -> def_of_ddef E d = Ok (ddef1_of d).
+  Lemma def_of_ddef_plain d : plain_ddef d -> def_of_ddef E0 d = Ok (ddef1_of d).
   Proof.
     intros (Hd & _ & Ha & _). unfold def_of_ddef, ddef1_of. rewrite (omap_ivdefs _ Ha). cbn [obind].
     rewrite Hd. reflexivity.
   Qed.
 
-  Lemma print_ddef_plain d : plain_ddef d -> print_directive_definition o E fuel d = Ok (ddef_text d).
+  Lemma print_ddef_plain d : plain_ddef d -> print_directive_definition o E print_fuel d = Ok (ddef_text d).
   Proof.
     intros (Hd & _ & Ha & _). unfold print_directive_definition, ddef_text.
     rewrite (print_arguments_plain _ 0 Ha). cbn [obind]. rewrite Hd. reflexivity.
@@ -667,73 +645,57 @@ Section Texts.
     rewrite p_join_all, app_nil_r; [reflexivity|].
     apply Forall_forall; intros x Hx. rewrite Forall_forall in Hl. apply (vname_nolf x (Hl x Hx)).
   Qed.
-End Texts.
 
-(* ------------------------------------------------------------------ *)
-(* the schema definition and the document                               *)
+  (* ---- the schema definition ----------------------------------------- *)
+  Definition plain_roots (sc : schema) : Prop :=
+    dirs_ok (s_dirs sc)
+    /\ (exists q, s_query sc = Some q /\ vname q)
+    /\ (forall m, s_mutation sc = Some m -> vname m)
+    /\ (forall m, s_subscription sc = Some m -> vname m).
 
-Lemma insert_by_in {A} (key : A -> str) x y l : In x (insert_by key y l) <-> x = y \/ In x l.
-Proof.
-  induction l as [|z l IH]; cbn [insert_by]; [simpl; intuition congruence|].
-  destruct (str_leb (key z) (key y)); cbn [In]; [rewrite IH|]; intuition congruence.
-Qed.
+  Definition plain_schema (sc : schema) : Prop :=
+    Forall plain_tdef (s_types sc) /\ Forall plain_ddef (s_ddefs sc) /\ plain_roots sc /\ s_types sc <> [].
 
-Lemma sort_by_in {A} (key : A -> str) l x : In x (sort_by key l) <-> In x l.
-Proof.
-  unfold sort_by.
-  assert (H : forall acc, In x (fold_left (fun a y => insert_by key y a) l acc) <-> In x acc \/ In x l).
-  { induction l as [|y l IH]; intros acc; cbn [fold_left]; [simpl; tauto|].
-    rewrite IH, insert_by_in. cbn [In]. intuition congruence. }
-  rewrite H. simpl; tauto.
-Qed.
+  Definition ot_of (k : op_kind) (r : option str) : list op_type_def :=
+    match r with Some n => [OTDef k (named_ty n) None] | None => [] end.
 
-Lemma sort_by_Forall {A} (P : A -> Prop) key l : Forall P l -> Forall P (sort_by key l).
-Proof. intros H. apply Forall_forall; intros x Hx. apply sort_by_in in Hx. rewrite Forall_forall in H; auto. Qed.
+  Definition sdef_of (sc : schema) : definition :=
+    DSchema false (custom_dirs (s_dirs sc))
+            (ot_of OpQuery (s_query sc) ++ ot_of OpMutation (s_mutation sc)
+             ++ ot_of OpSubscription (s_subscription sc)) None.
 
-Definition plain_roots (sc : schema) : Prop :=
-  nodirs (s_dirs sc)
-  /\ (exists q, s_query sc = Some q /\ vname q)
-  /\ (forall m, s_mutation sc = Some m -> vname m)
-  /\ (forall m, s_subscription sc = Some m -> vname m).
-
-Definition plain_schema (sc : schema) : Prop :=
-  Forall plain_tdef (s_types sc) /\ Forall plain_ddef (s_ddefs sc) /\ plain_roots sc /\ s_types sc <> [].
-
-Definition ot_of (k : op_kind) (r : option str) : list op_type_def :=
-  match r with Some n => [OTDef k (named_ty n) None] | None => [] end.
-
-Definition sdef_of (sc : schema) : definition :=
-  DSchema false [] (ot_of OpQuery (s_query sc) ++ ot_of OpMutation (s_mutation sc)
-                    ++ ot_of OpSubscription (s_subscription sc)) None.
-
-Definition op_line (k : string) (r : option str) : list str :=
-  match r with Some n => [lit k ++ lit ": " ++ n] | None => [] end.
-
-Section Doc.
-  Variable o : popts.
-  Let cf := Cfg (po_indent o) true.
+  Definition op_line (k : string) (r : option str) : list str :=
+    match r with Some n => [lit k ++ lit ": " ++ n] | None => [] end.
 
   Definition sdef_text (sc : schema) : str :=
-    lit "schema" ++ block_of o (op_line "query" (s_query sc) ++ op_line "mutation" (s_mutation sc)
-                               ++ op_line "subscription" (s_subscription sc)).
+    lit "schema" ++ dtext (custom_dirs (s_dirs sc))
+    ++ block_of (op_line "query" (s_query sc) ++ op_line "mutation" (s_mutation sc)
+                 ++ op_line "subscription" (s_subscription sc)).
 
   Lemma print_schema_definition_plain sc :
     plain_roots sc ->
     print_schema_definition o sc = if schema_def_needed sc then sdef_text sc else [].
   Proof.
     intros (Hn & _). unfold print_schema_definition, schema_def_needed.
-    rewrite (print_directives_nodirs o _ Hn). unfold nodirs in Hn. rewrite Hn. cbn [nonempty negb andb].
-    rewrite Bool.orb_false_r.
-    destruct (root_is_default sc (s_query sc) (S_ "Query") && root_is_default sc (s_mutation sc) (S_ "Mutation")
-              && root_is_default sc (s_subscription sc) (S_ "Subscription")); cbn [negb]; [reflexivity|].
-    unfold sdef_text, block_of. cbn [app].
-    destruct (s_query sc), (s_mutation sc), (s_subscription sc); cbn [op_line map app]; reflexivity.
+    rewrite (print_directives_ok _ Hn).
+    assert (Hne : nonempty (dtext (custom_dirs (s_dirs sc)))
+                  = match custom_dirs (s_dirs sc) with [] => false | _ => true end).
+    { unfold dtext. destruct (custom_dirs (s_dirs sc)); reflexivity. }
+    rewrite Hne.
+    destruct (custom_dirs (s_dirs sc)) as [|d0 r0] eqn:Hcd; cbn [negb andb].
+    - rewrite Bool.orb_false_r.
+      destruct (root_is_default sc (s_query sc) (S_ "Query") && root_is_default sc (s_mutation sc) (S_ "Mutation")
+                && root_is_default sc (s_subscription sc) (S_ "Subscription")); cbn [negb]; [reflexivity|].
+      unfold sdef_text, block_of. rewrite Hcd. cbn [dtext app].
+      destruct (s_query sc), (s_mutation sc), (s_subscription sc); cbn [op_line map app]; reflexivity.
+    - rewrite Bool.orb_true_r. unfold sdef_text, block_of. rewrite Hcd. rewrite <- ?app_assoc.
+      destruct (s_query sc), (s_mutation sc), (s_subscription sc); cbn [op_line map app]; reflexivity.
   Qed.
 
   Lemma pr_sdef_plain sc : plain_roots sc -> pr_definition cf (sdef_of sc) = sdef_text sc.
   Proof.
     intros (_ & (q & Hq & Hqn) & Hm & Hs). unfold sdef_of, sdef_text.
-    cbn [pr_definition kw]. change (pr_directives cf []) with (@nil N). rewrite p_join_filter.
+    cbn [pr_definition kw]. rewrite p_join_sp by discriminate. cbn [map concat]. rewrite sp_dirs, app_nil_r.
     set (lines := op_line "query" (s_query sc) ++ op_line "mutation" (s_mutation sc)
                   ++ op_line "subscription" (s_subscription sc)).
     assert (Hl : map pr_op_type_def (ot_of OpQuery (s_query sc) ++ ot_of OpMutation (s_mutation sc)
@@ -754,12 +716,78 @@ Section Doc.
         apply Hline; [apply Hm; reflexivity|reflexivity].
       - destruct (s_subscription sc) as [m|] eqn:Hse; [|contradiction]. destruct Hx as [<-|[]].
         apply Hline; [apply Hs; reflexivity|reflexivity]. }
-    pose proof (block_of_text o lines Hne Hall) as Hb.
-    pose proof (block_ne o lines Hne) as Hbn.
-    destruct (p_block lines (po_indent o)) as [|b0 br] eqn:Hbe; [congruence|].
-    change (c_indent cf) with (po_indent o). rewrite Hbe.
-    cbn [filter is_empty negb join app lit str_of_string]. rewrite <- Hb. reflexivity.
+    change (c_indent cf) with (po_indent o). rewrite (sp_block lines Hne Hall). reflexivity.
   Qed.
+End Texts.
+
+(* ------------------------------------------------------------------ *)
+(* the document                                                         *)
+
+Lemma insert_by_in {A} (key : A -> str) x y l : In x (insert_by key y l) <-> x = y \/ In x l.
+Proof.
+  induction l as [|z l IH]; cbn [insert_by]; [simpl; intuition congruence|].
+  destruct (str_leb (key z) (key y)); cbn [In]; [rewrite IH|]; intuition congruence.
+Qed.
+
+Lemma sort_by_in {A} (key : A -> str) l x : In x (sort_by key l) <-> In x l.
+Proof.
+  unfold sort_by.
+  assert (H : forall acc, In x (fold_left (fun a y => insert_by key y a) l acc) <-> In x acc \/ In x l).
+  { induction l as [|y l IH]; intros acc; cbn [fold_left]; [simpl; tauto|].
+    rewrite IH, insert_by_in. cbn [In]. intuition congruence. }
+  rewrite H. simpl; tauto.
+Qed.
+
+Lemma sort_by_Forall {A} (P : A -> Prop) key l : Forall P l -> Forall P (sort_by key l).
+Proof. intros H. apply Forall_forall; intros x Hx. apply sort_by_in in Hx. rewrite Forall_forall in H; auto. Qed.
+
+Lemma sort_by_nonempty {A} (key : A -> str) (l : list A) : l <> [] -> sort_by key l <> [].
+Proof.
+  destruct l as [|t0 ts]; [congruence|]. intros _ He.
+  assert (Hin : In t0 (sort_by key (t0 :: ts))) by (apply sort_by_in; left; reflexivity).
+  rewrite He in Hin. contradiction.
+Qed.
+
+Lemma alookup_app_some {A} n (l1 l2 : list (str * A)) x : alookup n l1 = Some x -> alookup n (l1 ++ l2) = Some x.
+Proof.
+  induction l1 as [|[k v] l1 IH]; [discriminate|]. cbn [alookup app]. destruct (str_eqb n k); [auto|exact IH].
+Qed.
+
+Lemma env_le_intro intro sc : env_le (env_of_schema [] sc) (env_of_schema intro sc).
+Proof.
+  unfold env_le, env_of_schema. intros n info H. rewrite app_nil_r in H. rewrite map_app. apply alookup_app_some. exact H.
+Qed.
+
+(* the schemas of this file: no descriptions; defaults whose literal is a
+   plain GraphQL literal; applied custom directives with plain arguments, all
+   printed by the options (or none) *)
+Definition text_schema (o : popts) (sc : schema) : Prop := plain_schema o (env_of_schema [] sc) sc.
+
+Definition doc_of (sc : schema) : document :=
+  let E0 := env_of_schema [] sc in
+  Doc ((if schema_def_needed sc then [sdef_of sc] else [])
+       ++ map (ddef1_of E0) (sort_by dd_name (s_ddefs sc))
+       ++ map (def1_of E0) (sort_by tdef_name (s_types sc))) None.
+
+Lemma ast_of_schema_plain o sc : text_schema o sc -> ast_of_schema sc = Ok (doc_of sc).
+Proof.
+  intros (Ht & Hd & Hr & Hne). set (E0 := env_of_schema [] sc) in *.
+  set (st := sort_by tdef_name (s_types sc)). set (sd := sort_by dd_name (s_ddefs sc)).
+  assert (Hst : Forall (plain_tdef o E0) st) by (apply sort_by_Forall; exact Ht).
+  assert (Hsd : Forall (plain_ddef o E0) sd) by (apply sort_by_Forall; exact Hd).
+  unfold ast_of_schema, doc_of. fold E0 sd st.
+  assert (H1 : omap (def_of_ddef E0) sd = Ok (map (ddef1_of E0) sd)).
+  { clear -Hsd. induction Hsd as [|x l Hx Hl IH]; [reflexivity|]. cbn [omap map].
+    rewrite (def_of_ddef_plain o E0 x Hx). cbn [obind]. rewrite IH. reflexivity. }
+  assert (H2 : omap (def_of_tdef E0) st = Ok (map (def1_of E0) st)).
+  { clear -Hst. induction Hst as [|x l Hx Hl IH]; [reflexivity|]. cbn [omap map].
+    rewrite (def_of_tdef_plain o E0 x Hx). cbn [obind]. rewrite IH. reflexivity. }
+  rewrite H1, H2. cbn [obind]. unfold sdef_of, ot_of. reflexivity.
+Qed.
+
+Section Doc.
+  Variable o : popts.
+  Let cf := Cfg (po_indent o) true.
 
   Lemma pr_defs_map ds :
     Forall (fun d => starts_brace (pr_definition cf d) = false) ds ->
@@ -770,310 +798,278 @@ Section Doc.
   Qed.
 
   Theorem print_is_print_ast intro spec sc :
-    plain_schema sc -> po_introspection o = false ->
-    exists d, ast_of_schema sc = Ok d
-              /\ print_schema intro spec o sc = Ok (print_ast (po_indent o) true d).
+    text_schema o sc -> po_introspection o = false ->
+    print_schema intro spec o sc = Ok (print_ast (po_indent o) true (doc_of sc)).
   Proof.
-    intros (Ht & Hd & Hr & Hne) Hi.
+    intros (Ht & Hd & Hr & Hne) Hi. set (E0 := env_of_schema [] sc) in *.
+    set (E := env_of_schema intro sc). pose proof (env_le_intro intro sc) as Hext. fold E0 E in Hext.
     set (st := sort_by tdef_name (s_types sc)). set (sd := sort_by dd_name (s_ddefs sc)).
-    assert (Hst : Forall plain_tdef st) by (apply sort_by_Forall; exact Ht).
-    assert (Hsd : Forall plain_ddef sd) by (apply sort_by_Forall; exact Hd).
+    assert (Hst : Forall (plain_tdef o E0) st) by (apply sort_by_Forall; exact Ht).
+    assert (Hsd : Forall (plain_ddef o E0) sd) by (apply sort_by_Forall; exact Hd).
     set (S := if schema_def_needed sc then [sdef_of sc] else []).
-    exists (Doc (S ++ map ddef1_of sd ++ map def1_of st) None). split.
-    - unfold ast_of_schema. fold sd st.
-      assert (H1 : omap (def_of_ddef (env_of_schema [] sc)) sd = Ok (map ddef1_of sd)).
-      { clear -Hsd. induction Hsd as [|x l Hx Hl IH]; [reflexivity|]. cbn [omap map].
-        rewrite (def_of_ddef_plain _ x Hx). cbn [obind]. rewrite IH. reflexivity. }
-      assert (H2 : omap (def_of_tdef (env_of_schema [] sc)) st = Ok (map def1_of st)).
-      { clear -Hst. induction Hst as [|x l Hx Hl IH]; [reflexivity|]. cbn [omap map].
-        rewrite (def_of_tdef_plain _ x Hx). cbn [obind]. rewrite IH. reflexivity. }
-      rewrite H1, H2. cbn [obind]. destruct Hr as (Hn & _). unfold nodirs in Hn. rewrite Hn.
-      unfold S, sdef_of, ot_of. reflexivity.
-    - unfold print_schema. rewrite Hi. rewrite app_nil_r. fold st sd. cbn [obind].
-      assert (H1 : omap (print_directive_definition o (env_of_schema intro sc) print_fuel) sd = Ok (map ddef_text sd)).
-      { clear -Hsd. induction Hsd as [|x l Hx Hl IH]; [reflexivity|]. cbn [omap map].
-        rewrite (print_ddef_plain _ _ _ x Hx). cbn [obind]. rewrite IH. reflexivity. }
-      assert (H2 : omap (print_type o (env_of_schema intro sc) print_fuel) st = Ok (map (type_text o) st)).
-      { clear -Hst. induction Hst as [|x l Hx Hl IH]; [reflexivity|]. cbn [omap map].
-        rewrite (print_type_plain _ _ _ x Hx). cbn [obind]. rewrite IH. reflexivity. }
-      rewrite H1, H2. cbn [obind app].
-      rewrite (print_schema_definition_plain sc Hr).
-      set (Stexts := if schema_def_needed sc then [sdef_text sc] else []).
-      assert (Hparts : filter nonempty ((if schema_def_needed sc then sdef_text sc else []) :: map ddef_text sd ++ map (type_text o) st)
-                       = Stexts ++ map ddef_text sd ++ map (type_text o) st).
-      { assert (Hk : forall l : list str, Forall (fun x => x <> []) l -> filter nonempty l = l).
-        { induction 1 as [|x l Hx Hl IH]; [reflexivity|]. cbn [filter]. destruct x; [congruence|]. cbn [nonempty].
-          rewrite IH. reflexivity. }
-        assert (Hrest : Forall (fun x : str => x <> []) (map ddef_text sd ++ map (type_text o) st)).
-        { apply Forall_app; split; apply Forall_forall; intros x Hx; apply in_map_iff in Hx; destruct Hx as [y [<- _]].
-          - discriminate.
-          - destruct y; discriminate. }
-        unfold Stexts. destruct (schema_def_needed sc); cbn [filter nonempty].
-        - unfold sdef_text at 1. cbn [app lit str_of_string nonempty]. rewrite (Hk _ Hrest). reflexivity.
-        - apply Hk; exact Hrest. }
-      rewrite Hparts.
-      assert (Hst_ne : st <> []).
-      { clear -Hne. unfold st. destruct (s_types sc) as [|t0 ts]; [congruence|].
-        intros He. assert (Hin : In t0 (sort_by tdef_name (t0 :: ts))) by (apply sort_by_in; left; reflexivity).
-        rewrite He in Hin. contradiction. }
-      assert (Htexts : map (pr_definition cf) (S ++ map ddef1_of sd ++ map def1_of st)
-                       = Stexts ++ map ddef_text sd ++ map (type_text o) st).
-      { rewrite !map_app, !map_map. f_equal; [|f_equal].
-        - unfold S, Stexts. destruct (schema_def_needed sc); [|reflexivity]. cbn [map].
-          rewrite (pr_sdef_plain sc Hr). reflexivity.
-        - apply map_ext_in. intros x Hx. rewrite Forall_forall in Hsd. apply (pr_ddef_plain o). apply Hsd; exact Hx.
-        - apply map_ext_in. intros x Hx. rewrite Forall_forall in Hst. apply (pr_definition_plain o). apply Hst; exact Hx. }
-      assert (Hall : Forall (fun x : str => x <> []) (Stexts ++ map ddef_text sd ++ map (type_text o) st)).
-      { apply Forall_app; split.
-        - unfold Stexts. destruct (schema_def_needed sc); repeat constructor. discriminate.
-        - apply Forall_app; split; apply Forall_forall; intros x Hx; apply in_map_iff in Hx; destruct Hx as [y [<- _]].
-          + discriminate.
-          + destruct y; discriminate. }
-      destruct (Stexts ++ map ddef_text sd ++ map (type_text o) st) as [|p0 ps] eqn:Hp.
-      { exfalso. apply app_eq_nil in Hp. destruct Hp as [_ Hp]. apply app_eq_nil in Hp. destruct Hp as [_ Hp].
-        destruct st; [congruence|discriminate]. }
-      f_equal. unfold print_ast, pr_document. cbn [doc_defs]. fold cf.
-      rewrite pr_defs_map.
-      + rewrite Htexts. rewrite p_join_all by exact Hall. reflexivity.
-      + apply Forall_forall; intros x Hx.
-        assert (Hin : In (pr_definition cf x) (p0 :: ps)) by (rewrite <- Htexts; apply in_map; exact Hx).
-        rewrite <- Hp in Hin. apply in_app_or in Hin. destruct Hin as [Hin|Hin].
-        * unfold Stexts in Hin. destruct (schema_def_needed sc); [|contradiction]. destruct Hin as [<-|[]]. reflexivity.
-        * apply in_app_or in Hin. destruct Hin as [Hin|Hin]; apply in_map_iff in Hin; destruct Hin as [y [<- _]].
-          -- reflexivity.
-          -- destruct y; reflexivity.
+    unfold doc_of. fold E0 sd st S.
+    unfold print_schema. rewrite Hi. rewrite app_nil_r. fold st sd E. cbn [obind].
+    assert (H1 : omap (print_directive_definition o E print_fuel) sd = Ok (map (ddef_text o E0) sd)).
+    { clear -Hsd Hext. induction Hsd as [|x l Hx Hl IH]; [reflexivity|]. cbn [omap map].
+      rewrite (print_ddef_plain o E E0 Hext x Hx). cbn [obind]. rewrite IH. reflexivity. }
+    assert (H2 : omap (print_type o E print_fuel) st = Ok (map (type_text o E0) st)).
+    { clear -Hst Hext. induction Hst as [|x l Hx Hl IH]; [reflexivity|]. cbn [omap map].
+      rewrite (print_type_plain o E E0 Hext x Hx). cbn [obind]. rewrite IH. reflexivity. }
+    rewrite H1, H2. cbn [obind app].
+    rewrite (print_schema_definition_plain o sc Hr).
+    set (Stexts := if schema_def_needed sc then [sdef_text o sc] else []).
+    assert (Hrest : Forall (fun x : str => x <> []) (map (ddef_text o E0) sd ++ map (type_text o E0) st)).
+    { apply Forall_app; split; apply Forall_forall; intros x Hx; apply in_map_iff in Hx; destruct Hx as [y [<- _]].
+      - discriminate.
+      - destruct y; discriminate. }
+    assert (Hparts : filter nonempty ((if schema_def_needed sc then sdef_text o sc else [])
+                                      :: map (ddef_text o E0) sd ++ map (type_text o E0) st)
+                     = Stexts ++ map (ddef_text o E0) sd ++ map (type_text o E0) st).
+    { assert (Hk : forall l : list str, Forall (fun x => x <> []) l -> filter nonempty l = l).
+      { induction 1 as [|x l Hx Hl IH]; [reflexivity|]. cbn [filter]. destruct x; [congruence|]. cbn [nonempty].
+        rewrite IH. reflexivity. }
+      unfold Stexts. destruct (schema_def_needed sc); cbn [filter nonempty].
+      - unfold sdef_text at 1. cbn [app lit str_of_string nonempty]. rewrite (Hk _ Hrest). reflexivity.
+      - apply Hk; exact Hrest. }
+    rewrite Hparts.
+    assert (Hst_ne : st <> []) by (apply sort_by_nonempty; exact Hne).
+    assert (Htexts : map (pr_definition cf) (S ++ map (ddef1_of E0) sd ++ map (def1_of E0) st)
+                     = Stexts ++ map (ddef_text o E0) sd ++ map (type_text o E0) st).
+    { unfold cf. rewrite !map_app, !map_map. f_equal; [|f_equal].
+      - unfold S, Stexts. destruct (schema_def_needed sc); [|reflexivity]. cbn [map].
+        rewrite (pr_sdef_plain o sc Hr). reflexivity.
+      - apply map_ext_in. intros x Hx. rewrite Forall_forall in Hsd. apply (pr_ddef_plain o E0). apply Hsd; exact Hx.
+      - apply map_ext_in. intros x Hx. rewrite Forall_forall in Hst. apply (pr_definition_plain o E0). apply Hst; exact Hx. }
+    assert (Hall : Forall (fun x : str => x <> []) (Stexts ++ map (ddef_text o E0) sd ++ map (type_text o E0) st)).
+    { apply Forall_app; split; [|exact Hrest].
+      unfold Stexts. destruct (schema_def_needed sc); repeat constructor. discriminate. }
+    destruct (Stexts ++ map (ddef_text o E0) sd ++ map (type_text o E0) st) as [|p0 ps] eqn:Hp.
+    { exfalso. apply app_eq_nil in Hp. destruct Hp as [_ Hp]. apply app_eq_nil in Hp. destruct Hp as [_ Hp].
+      destruct st; [congruence|discriminate]. }
+    f_equal. unfold print_ast, pr_document. cbn [doc_defs]. fold cf.
+    rewrite pr_defs_map.
+    + rewrite Htexts. rewrite p_join_all by exact Hall. reflexivity.
+    + apply Forall_forall; intros x Hx.
+      assert (Hin : In (pr_definition cf x) (p0 :: ps)) by (rewrite <- Htexts; apply in_map; exact Hx).
+      rewrite <- Hp in Hin. apply in_app_or in Hin. destruct Hin as [Hin|Hin].
+      * unfold Stexts in Hin. destruct (schema_def_needed sc); [|contradiction]. destruct Hin as [<-|[]]. reflexivity.
+      * apply in_app_or in Hin. destruct Hin as [Hin|Hin]; apply in_map_iff in Hin; destruct Hin as [y [<- _]].
+        -- reflexivity.
+        -- destruct y; reflexivity.
   Qed.
 End Doc.
 
 (* ------------------------------------------------------------------ *)
 (* the emitted document is well formed for the C03 round trip, and has no
    locations to strip                                                   *)
+Section WfDoc.
+  Variable o : popts.
+  Variable E0 : env.
 
-Lemma vname_lit_deprecated : vname (S_ "deprecated").
-Proof. unfold S_. cbn. eexists _, _. split; [reflexivity|]. split; [reflexivity|]. repeat constructor. Qed.
-Lemma vname_lit_reason : vname (S_ "reason").
-Proof. unfold S_. cbn. eexists _, _. split; [reflexivity|]. split; [reflexivity|]. repeat constructor. Qed.
+  Lemma map_id_in {A} (f : A -> A) l : (forall x, In x l -> f x = x) -> map f l = l.
+  Proof. induction l as [|x l IH]; intros H; [reflexivity|]. cbn [map]. rewrite (H x (or_introl eq_refl)), IH; [reflexivity|intros; apply H; right; assumption]. Qed.
 
-Lemma wf_deprecated dep : Forall (wf_dir true) (deprecated_dir dep).
-Proof.
-  destruct dep as [r|]; [|constructor]. unfold deprecated_dir. constructor; [|constructor].
-  split; [exact vname_lit_deprecated|]. cbn [d_args].
-  destruct (str_eqb r default_deprecation); [constructor|].
-  constructor; [|constructor]. split; [exact vname_lit_reason|exact I].
-Qed.
+  Lemma good_dirs_wf l : Forall good_dir l -> Forall (wf_dir true) l.
+  Proof. apply Forall_impl. apply good_dir_wf. Qed.
 
-Lemma strip_deprecated dep : map strip_dir (deprecated_dir dep) = deprecated_dir dep.
-Proof.
-  destruct dep as [r|]; [|reflexivity]. unfold deprecated_dir. cbn [map strip_dir d_name d_args mk_name strip_name n_val].
-  destruct (str_eqb r default_deprecation); reflexivity.
-Qed.
+  Lemma good_dirs_strip l : Forall good_dir l -> map strip_dir l = l.
+  Proof. intros H. apply map_id_in. intros d Hd. rewrite Forall_forall in H. apply good_dir_strip. apply H; exact Hd. Qed.
 
-Lemma strip_iv_of a : strip_ivdef (iv_of a) = iv_of a.
-Proof.
-  unfold strip_ivdef, iv_of. cbn [iv_desc iv_name iv_type iv_default iv_dirs option_map map mk_name strip_name n_val].
-  rewrite strip_ty_of_tref. reflexivity.
-Qed.
+  Lemma dflt_of_facts a : dflt_ok E0 a ->
+    match dflt_of E0 a with Some d => wf_value true d /\ strip_value d = d | None => True end.
+  Proof.
+    unfold dflt_ok, dflt_of. destruct (siv_default a) as [v|]; [|intros _; exact I].
+    intros (n & Hn & Hg). rewrite Hn. split; [apply good_wf; exact Hg|apply good_strip; exact Hg].
+  Qed.
 
-Lemma wf_iv_of a : plain_siv a -> wf_ivdef (iv_of a) /\ iv_desc (iv_of a) = None.
-Proof.
-  intros (_ & _ & _ & Hn & Ht). split; [|reflexivity]. unfold wf_ivdef, iv_of.
-  cbn [iv_name iv_type iv_default iv_dirs mk_name n_val]. repeat split; try constructor; try assumption.
-  apply wf_ty_of_tref; exact Ht.
-Qed.
+  Lemma strip_iv_of a : plain_siv o E0 a -> strip_ivdef (iv_of E0 a) = iv_of E0 a.
+  Proof.
+    intros (Hd & _ & [Hg _] & _). unfold strip_ivdef, iv_of.
+    cbn [iv_desc iv_name iv_type iv_default iv_dirs option_map map mk_name strip_name n_val].
+    rewrite strip_ty_of_tref, (good_dirs_strip _ Hg). pose proof (dflt_of_facts a Hd) as H.
+    destruct (dflt_of E0 a) as [d|]; cbn [option_map]; [destruct H as [_ ->]|]; reflexivity.
+  Qed.
 
-Lemma map_id_in {A} (f : A -> A) l : (forall x, In x l -> f x = x) -> map f l = l.
-Proof. induction l as [|x l IH]; intros H; [reflexivity|]. cbn [map]. rewrite (H x (or_introl eq_refl)), IH; [reflexivity|intros; apply H; right; assumption]. Qed.
+  Lemma wf_iv_of a : plain_siv o E0 a -> wf_ivdef (iv_of E0 a) /\ iv_desc (iv_of E0 a) = None.
+  Proof.
+    intros (Hd & _ & [Hg _] & Hn & Ht). split; [|reflexivity]. unfold wf_ivdef, iv_of.
+    cbn [iv_name iv_type iv_default iv_dirs mk_name n_val]. repeat split.
+    - exact Hn.
+    - apply wf_ty_of_tref; exact Ht.
+    - pose proof (dflt_of_facts a Hd) as H. destruct (dflt_of E0 a); [apply H|exact I].
+    - apply good_dirs_wf; exact Hg.
+  Qed.
 
-Lemma strip_fd_of f : strip_fdef (fd_of f) = fd_of f.
-Proof.
-  unfold strip_fdef, fd_of. cbn [fd_desc fd_name fd_args fd_type fd_dirs option_map mk_name strip_name n_val].
-  rewrite strip_ty_of_tref, strip_deprecated, map_map.
-  rewrite (map_ext _ iv_of) by (intros; apply strip_iv_of). reflexivity.
-Qed.
+  Lemma strip_fd_of f : plain_sf o E0 f -> strip_fdef (fd_of E0 f) = fd_of E0 f.
+  Proof.
+    intros (_ & Hn & _ & _ & Ha). unfold strip_fdef, fd_of, fdirs. cbn [fd_desc fd_name fd_args fd_type fd_dirs option_map mk_name strip_name n_val].
+    rewrite strip_ty_of_tref, (good_dirs_strip _ (good_fdirs o (sf_dep f) _ Hn)), map_map.
+    rewrite (map_ext_in _ (iv_of E0)); [reflexivity|]. intros a Hin. rewrite Forall_forall in Ha. apply strip_iv_of; auto.
+  Qed.
 
-Lemma wf_fd_of f : plain_sf f -> wf_fdef (fd_of f) /\ nodesc_fdef (fd_of f).
-Proof.
-  intros (_ & _ & Hn & Ht & Ha). unfold wf_fdef, nodesc_fdef, fd_of.
-  cbn [fd_desc fd_name fd_args fd_type fd_dirs mk_name n_val]. repeat split.
-  - exact Hn.
-  - apply Forall_forall; intros x Hx. apply in_map_iff in Hx. destruct Hx as [a [<- Ha']].
-    rewrite Forall_forall in Ha. apply (wf_iv_of a (Ha a Ha')).
-  - apply wf_ty_of_tref; exact Ht.
-  - apply wf_deprecated.
-  - apply Forall_forall; intros x Hx. apply in_map_iff in Hx. destruct Hx as [a [<- _]]. reflexivity.
-Qed.
+  Lemma wf_fd_of f : plain_sf o E0 f -> wf_fdef (fd_of E0 f) /\ nodesc_fdef (fd_of E0 f).
+  Proof.
+    intros (_ & Hdirs & Hn & Ht & Ha). unfold wf_fdef, nodesc_fdef, fd_of, fdirs.
+    cbn [fd_desc fd_name fd_args fd_type fd_dirs mk_name n_val]. repeat split.
+    - exact Hn.
+    - apply Forall_forall; intros x Hx. apply in_map_iff in Hx. destruct Hx as [a [<- Ha']].
+      rewrite Forall_forall in Ha. apply (wf_iv_of a (Ha a Ha')).
+    - apply wf_ty_of_tref; exact Ht.
+    - apply good_dirs_wf. apply (good_fdirs o); exact Hdirs.
+    - apply Forall_forall; intros x Hx. apply in_map_iff in Hx. destruct Hx as [a [<- _]]. reflexivity.
+  Qed.
 
-Lemma strip_ev_of v : strip_evdef (ev_of v) = ev_of v.
-Proof. unfold strip_evdef, ev_of. cbn [ev_desc ev_name ev_dirs option_map mk_name strip_name n_val]. rewrite strip_deprecated. reflexivity. Qed.
+  Lemma strip_ev_of v : plain_sev o v -> strip_evdef (ev_of v) = ev_of v.
+  Proof.
+    intros (_ & Hn & _). unfold strip_evdef, ev_of, edirs. cbn [ev_desc ev_name ev_dirs option_map mk_name strip_name n_val].
+    rewrite (good_dirs_strip _ (good_fdirs o (sev_dep v) _ Hn)). reflexivity.
+  Qed.
 
-Lemma wf_ev_of v : plain_sev v -> wf_evdef (ev_of v) /\ ev_desc (ev_of v) = None.
-Proof.
-  intros (_ & _ & Hn & Hr). split; [|reflexivity]. unfold wf_evdef, ev_of. cbn [ev_name ev_dirs mk_name n_val].
-  repeat split; [exact Hn|exact Hr|apply wf_deprecated].
-Qed.
+  Lemma wf_ev_of v : plain_sev o v -> wf_evdef (ev_of v) /\ ev_desc (ev_of v) = None.
+  Proof.
+    intros (_ & Hdirs & Hn & Hr). split; [|reflexivity]. unfold wf_evdef, ev_of, edirs. cbn [ev_name ev_dirs mk_name n_val].
+    repeat split; [exact Hn|exact Hr|apply good_dirs_wf; apply (good_fdirs o); exact Hdirs].
+  Qed.
 
-Lemma strip_named_tys ns : map strip_ty (map named_ty ns) = map named_ty ns.
-Proof. rewrite map_map. apply map_ext. intros; reflexivity. Qed.
+  Lemma strip_named_tys ns : map strip_ty (map named_ty ns) = map named_ty ns.
+  Proof. rewrite map_map. apply map_ext. intros; reflexivity. Qed.
 
-Lemma wf_named_tys ns : Forall (fun n => vname n) ns -> Forall wf_named (map named_ty ns).
-Proof.
-  intros H. apply Forall_forall; intros x Hx. apply in_map_iff in Hx. destruct Hx as [n [<- Hn]].
-  rewrite Forall_forall in H. exact (H n Hn).
-Qed.
+  Lemma wf_named_tys ns : Forall (fun n => vname n) ns -> Forall wf_named (map named_ty ns).
+  Proof.
+    intros H. apply Forall_forall; intros x Hx. apply in_map_iff in Hx. destruct Hx as [n [<- Hn]].
+    rewrite Forall_forall in H. exact (H n Hn).
+  Qed.
 
-Lemma strip_def1_of t : strip_def (def1_of t) = def1_of t.
-Proof.
-  destruct t; cbn [def1_of strip_def option_map map mk_name strip_name n_val];
-    rewrite ?strip_named_tys, ?map_map;
-    rewrite ?(map_ext _ fd_of) by (intros; apply strip_fd_of);
-    rewrite ?(map_ext _ ev_of) by (intros; apply strip_ev_of);
-    rewrite ?(map_ext _ iv_of) by (intros; apply strip_iv_of); reflexivity.
-Qed.
+  Lemma strip_def1_of t : plain_tdef o E0 t -> strip_def (def1_of E0 t) = def1_of E0 t.
+  Proof.
+    intros (_ & [Hg _] & _ & Hk).
+    destruct t; cbn [tdef_dirs] in Hg; cbn [def1_of strip_def option_map map mk_name strip_name n_val];
+      rewrite ?strip_named_tys, ?map_map, (good_dirs_strip _ Hg).
+    - reflexivity.
+    - destruct Hk as (_ & Hf & _). rewrite (map_ext_in _ (fd_of E0)); [reflexivity|].
+      intros f Hin. rewrite Forall_forall in Hf. apply strip_fd_of; auto.
+    - destruct Hk as (_ & Hf). rewrite (map_ext_in _ (fd_of E0)); [reflexivity|].
+      intros f Hin. rewrite Forall_forall in Hf. apply strip_fd_of; auto.
+    - reflexivity.
+    - destruct Hk as (_ & Hf). rewrite (map_ext_in _ ev_of); [reflexivity|].
+      intros f Hin. rewrite Forall_forall in Hf. apply strip_ev_of; auto.
+    - destruct Hk as (_ & Hf). rewrite (map_ext_in _ (iv_of E0)); [reflexivity|].
+      intros f Hin. rewrite Forall_forall in Hf. apply strip_iv_of; auto.
+  Qed.
 
-Lemma wf_def1_of fv t : plain_tdef t -> wf_fulldef fv (def1_of t).
-Proof.
-  intros (_ & _ & Hn & Hk).
-  assert (Hwfd : wfd false None) by (split; [discriminate|exact I]).
-  destruct t as [n d ds|n d ifaces fs ds|n d fs ds|n d members ds|n d vs ds|n d fs ds];
-    cbn [tdef_name] in Hn; cbn [def1_of wf_fulldef wf_sdef member_desc_free mk_name n_val].
-  - repeat split; try assumption; try constructor; discriminate.
-  - destruct Hk as (_ & Hf & Hi). repeat split; try assumption; try constructor; try discriminate.
-    + apply wf_named_tys; exact Hi.
-    + apply Forall_forall; intros x Hx. apply in_map_iff in Hx. destruct Hx as [f [<- Hf']].
-      rewrite Forall_forall in Hf. apply (wf_fd_of f (Hf f Hf')).
-    + apply Forall_forall; intros x Hx. apply in_map_iff in Hx. destruct Hx as [f [<- Hf']].
-      rewrite Forall_forall in Hf. apply (wf_fd_of f (Hf f Hf')).
-  - destruct Hk as (_ & Hf). repeat split; try assumption; try constructor; try discriminate.
-    + apply Forall_forall; intros x Hx. apply in_map_iff in Hx. destruct Hx as [f [<- Hf']].
-      rewrite Forall_forall in Hf. apply (wf_fd_of f (Hf f Hf')).
-    + apply Forall_forall; intros x Hx. apply in_map_iff in Hx. destruct Hx as [f [<- Hf']].
-      rewrite Forall_forall in Hf. apply (wf_fd_of f (Hf f Hf')).
-  - destruct Hk as (_ & Hm). repeat split; try assumption; try constructor; try discriminate.
-    apply wf_named_tys; exact Hm.
-  - destruct Hk as (_ & Hv). repeat split; try assumption; try constructor; try discriminate.
-    + apply Forall_forall; intros x Hx. apply in_map_iff in Hx. destruct Hx as [v [<- Hv']].
-      rewrite Forall_forall in Hv. apply (wf_ev_of v (Hv v Hv')).
-    + apply Forall_forall; intros x Hx. apply in_map_iff in Hx. destruct Hx as [v [<- Hv']].
-      rewrite Forall_forall in Hv. apply (wf_ev_of v (Hv v Hv')).
-  - destruct Hk as (_ & Hf). repeat split; try assumption; try constructor; try discriminate.
-    + apply Forall_forall; intros x Hx. apply in_map_iff in Hx. destruct Hx as [a [<- Ha']].
-      rewrite Forall_forall in Hf. apply (wf_iv_of a (Hf a Ha')).
-    + apply Forall_forall; intros x Hx. apply in_map_iff in Hx. destruct Hx as [a [<- Ha']]. reflexivity.
-Qed.
+  Lemma wf_def1_of fv t : plain_tdef o E0 t -> wf_fulldef fv (def1_of E0 t).
+  Proof.
+    intros (_ & [Hg _] & Hn & Hk). apply good_dirs_wf in Hg.
+    assert (Hwfd : wfd false None) by (split; [discriminate|exact I]).
+    destruct t as [n d ds|n d is_ fs ds|n d fs ds|n d members ds|n d vs ds|n d fs ds];
+      cbn [tdef_name tdef_dirs] in Hn, Hg; cbn [def1_of wf_fulldef wf_sdef member_desc_free mk_name n_val].
+    - repeat split; try assumption; discriminate.
+    - destruct Hk as (_ & Hf & Hi). repeat split; try assumption; try discriminate.
+      + apply wf_named_tys; exact Hi.
+      + apply Forall_forall; intros x Hx. apply in_map_iff in Hx. destruct Hx as [f [<- Hf']].
+        rewrite Forall_forall in Hf. apply (wf_fd_of f (Hf f Hf')).
+      + apply Forall_forall; intros x Hx. apply in_map_iff in Hx. destruct Hx as [f [<- Hf']].
+        rewrite Forall_forall in Hf. apply (wf_fd_of f (Hf f Hf')).
+    - destruct Hk as (_ & Hf). repeat split; try assumption; try discriminate.
+      + apply Forall_forall; intros x Hx. apply in_map_iff in Hx. destruct Hx as [f [<- Hf']].
+        rewrite Forall_forall in Hf. apply (wf_fd_of f (Hf f Hf')).
+      + apply Forall_forall; intros x Hx. apply in_map_iff in Hx. destruct Hx as [f [<- Hf']].
+        rewrite Forall_forall in Hf. apply (wf_fd_of f (Hf f Hf')).
+    - destruct Hk as (_ & Hm). repeat split; try assumption; try discriminate.
+      apply wf_named_tys; exact Hm.
+    - destruct Hk as (_ & Hv). repeat split; try assumption; try discriminate.
+      + apply Forall_forall; intros x Hx. apply in_map_iff in Hx. destruct Hx as [v [<- Hv']].
+        rewrite Forall_forall in Hv. apply (wf_ev_of v (Hv v Hv')).
+      + apply Forall_forall; intros x Hx. apply in_map_iff in Hx. destruct Hx as [v [<- Hv']].
+        rewrite Forall_forall in Hv. apply (wf_ev_of v (Hv v Hv')).
+    - destruct Hk as (_ & Hf). repeat split; try assumption; try discriminate.
+      + apply Forall_forall; intros x Hx. apply in_map_iff in Hx. destruct Hx as [a [<- Ha']].
+        rewrite Forall_forall in Hf. apply (wf_iv_of a (Hf a Ha')).
+      + apply Forall_forall; intros x Hx. apply in_map_iff in Hx. destruct Hx as [a [<- Ha']]. reflexivity.
+  Qed.
 
-Definition doc_of (sc : schema) : document :=
-  Doc ((if schema_def_needed sc then [sdef_of sc] else [])
-       ++ map ddef1_of (sort_by dd_name (s_ddefs sc))
-       ++ map def1_of (sort_by tdef_name (s_types sc))) None.
+  Lemma strip_ddef1_of d : plain_ddef o E0 d -> strip_def (ddef1_of E0 d) = ddef1_of E0 d.
+  Proof.
+    intros (_ & _ & Ha & _). unfold ddef1_of. cbn [strip_def option_map mk_name strip_name n_val]. rewrite !map_map.
+    rewrite (map_ext_in _ (iv_of E0)); [reflexivity|]. intros a Hin. rewrite Forall_forall in Ha. apply strip_iv_of; auto.
+  Qed.
 
-Lemma ast_of_schema_plain sc : plain_schema sc -> ast_of_schema sc = Ok (doc_of sc).
-Proof.
-  intros (Ht & Hd & Hr & Hne).
-  set (st := sort_by tdef_name (s_types sc)). set (sd := sort_by dd_name (s_ddefs sc)).
-  assert (Hst : Forall plain_tdef st) by (apply sort_by_Forall; exact Ht).
-  assert (Hsd : Forall plain_ddef sd) by (apply sort_by_Forall; exact Hd).
-  unfold ast_of_schema, doc_of. fold sd st.
-  assert (H1 : omap (def_of_ddef (env_of_schema [] sc)) sd = Ok (map ddef1_of sd)).
-  { clear -Hsd. induction Hsd as [|x l Hx Hl IH]; [reflexivity|]. cbn [omap map].
-    rewrite (def_of_ddef_plain _ x Hx). cbn [obind]. rewrite IH. reflexivity. }
-  assert (H2 : omap (def_of_tdef (env_of_schema [] sc)) st = Ok (map def1_of st)).
-  { clear -Hst. induction Hst as [|x l Hx Hl IH]; [reflexivity|]. cbn [omap map].
-    rewrite (def_of_tdef_plain _ x Hx). cbn [obind]. rewrite IH. reflexivity. }
-  rewrite H1, H2. cbn [obind]. destruct Hr as (Hn & _). unfold nodirs in Hn. rewrite Hn.
-  unfold sdef_of, ot_of. reflexivity.
-Qed.
+  Lemma wf_ddef1_of fv d :
+    plain_ddef o E0 d -> Forall (fun l => In l (map str_of_string directive_location_names)) (dd_locs d) ->
+    wf_fulldef fv (ddef1_of E0 d).
+  Proof.
+    intros (_ & Hn & Ha & Hne & _) Hl. unfold ddef1_of. cbn [wf_fulldef wf_sdef member_desc_free mk_name n_val].
+    repeat split.
+    - exact Hn.
+    - apply Forall_forall; intros x Hx. apply in_map_iff in Hx. destruct Hx as [a [<- Ha']].
+      rewrite Forall_forall in Ha. apply (wf_iv_of a (Ha a Ha')).
+    - destruct (dd_locs d); [congruence|discriminate].
+    - apply Forall_forall; intros x Hx. apply in_map_iff in Hx. destruct Hx as [l [<- Hl']].
+      rewrite Forall_forall in Hl. exact (Hl l Hl').
+    - apply Forall_forall; intros x Hx. apply in_map_iff in Hx. destruct Hx as [a [<- _]]. reflexivity.
+  Qed.
 
-(* directive locations are the sixteen names of the grammar (the parser
-   accepts no others, so every schema built from SDL satisfies this) *)
+  Lemma strip_sdef_of sc : plain_roots o sc -> strip_def (sdef_of sc) = sdef_of sc.
+  Proof.
+    intros ([Hg _] & _). unfold sdef_of, ot_of. cbn [strip_def]. rewrite (good_dirs_strip _ Hg).
+    destruct (s_query sc), (s_mutation sc), (s_subscription sc); reflexivity.
+  Qed.
+
+  Lemma wf_sdef_of fv sc : plain_roots o sc -> wf_fulldef fv (sdef_of sc).
+  Proof.
+    intros ([Hg _] & (q & Hq & Hvq) & Hm & Hs). unfold sdef_of. cbn [wf_fulldef wf_sdef member_desc_free].
+    rewrite Hq. split; [split; [apply good_dirs_wf; exact Hg|split]|exact I].
+    - cbn [ot_of app]. constructor.
+      + eexists _, _. split; [reflexivity|exact Hvq].
+      + apply Forall_app; split.
+        * destruct (s_mutation sc) as [m|]; [|constructor]. repeat constructor.
+          eexists _, _. split; [reflexivity|apply Hm; reflexivity].
+        * destruct (s_subscription sc) as [m|]; [|constructor]. repeat constructor.
+          eexists _, _. split; [reflexivity|apply Hs; reflexivity].
+    - cbn [ot_of app]. discriminate.
+  Qed.
+End WfDoc.
+
+(* directive locations are the names of the grammar (the parser accepts no
+   others, so every schema built from SDL satisfies this) *)
 Definition valid_locations (sc : schema) : Prop :=
   Forall (fun d => Forall (fun l => In l (map str_of_string directive_location_names)) (dd_locs d)) (s_ddefs sc).
 
-Lemma strip_ddef1_of d : strip_def (ddef1_of d) = ddef1_of d.
+Lemma strip_doc_of o sc : text_schema o sc -> strip_doc (doc_of sc) = doc_of sc.
 Proof.
-  unfold ddef1_of. cbn [strip_def option_map mk_name strip_name n_val]. rewrite !map_map.
-  rewrite (map_ext _ iv_of) by (intros; apply strip_iv_of). reflexivity.
+  intros (Ht & Hd & Hr & _). unfold strip_doc, doc_of. cbn [doc_defs]. f_equal. rewrite !map_app, !map_map. f_equal; [|f_equal].
+  - destruct (schema_def_needed sc); [|reflexivity]. cbn [map]. rewrite (strip_sdef_of o sc Hr). reflexivity.
+  - apply map_ext_in. intros d Hin. apply sort_by_in in Hin. rewrite Forall_forall in Hd. apply (strip_ddef1_of o); auto.
+  - apply map_ext_in. intros t Hin. apply sort_by_in in Hin. rewrite Forall_forall in Ht. apply (strip_def1_of o); auto.
 Qed.
 
-Lemma wf_ddef1_of fv d :
-  plain_ddef d -> Forall (fun l => In l (map str_of_string directive_location_names)) (dd_locs d) ->
-  wf_fulldef fv (ddef1_of d).
-Proof.
-  intros (_ & Hn & Ha & Hne & _) Hl. unfold ddef1_of. cbn [wf_fulldef wf_sdef member_desc_free mk_name n_val].
-  repeat split.
-  - exact Hn.
-  - apply Forall_forall; intros x Hx. apply in_map_iff in Hx. destruct Hx as [a [<- Ha']].
-    rewrite Forall_forall in Ha. apply (wf_iv_of a (Ha a Ha')).
-  - destruct (dd_locs d); [congruence|discriminate].
-  - apply Forall_forall; intros x Hx. apply in_map_iff in Hx. destruct Hx as [l [<- Hl']].
-    rewrite Forall_forall in Hl. exact (Hl l Hl').
-  - apply Forall_forall; intros x Hx. apply in_map_iff in Hx. destruct Hx as [a [<- _]]. reflexivity.
-Qed.
-
-Lemma strip_sdef_of sc : strip_def (sdef_of sc) = sdef_of sc.
-Proof.
-  unfold sdef_of, ot_of. cbn [strip_def map].
-  destruct (s_query sc), (s_mutation sc), (s_subscription sc); reflexivity.
-Qed.
-
-Lemma wf_sdef_of fv sc : plain_roots sc -> wf_fulldef fv (sdef_of sc).
-Proof.
-  intros (_ & (q & Hq & Hvq) & Hm & Hs). unfold sdef_of. cbn [wf_fulldef wf_sdef member_desc_free].
-  rewrite Hq. split; [split; [constructor|split]|exact I].
-  - cbn [ot_of app]. constructor.
-    + eexists _, _. split; [reflexivity|exact Hvq].
-    + apply Forall_app; split.
-      * destruct (s_mutation sc) as [m|]; [|constructor]. repeat constructor.
-        eexists _, _. split; [reflexivity|apply Hm; reflexivity].
-      * destruct (s_subscription sc) as [m|]; [|constructor]. repeat constructor.
-        eexists _, _. split; [reflexivity|apply Hs; reflexivity].
-  - cbn [ot_of app]. discriminate.
-Qed.
-
-Lemma sort_by_nonempty {A} (key : A -> str) (l : list A) : l <> [] -> sort_by key l <> [].
-Proof.
-  destruct l as [|t0 ts]; [congruence|]. intros _ He.
-  assert (Hin : In t0 (sort_by key (t0 :: ts))) by (apply sort_by_in; left; reflexivity).
-  rewrite He in Hin. contradiction.
-Qed.
-
-Lemma sort_by_in_inv {A} (key : A -> str) (l : list A) x : In x (sort_by key l) -> In x l.
-Proof. intros H. apply sort_by_in in H. exact H. Qed.
-
-Lemma strip_doc_of sc : strip_doc (doc_of sc) = doc_of sc.
-Proof.
-  unfold strip_doc, doc_of. cbn [doc_defs]. f_equal. rewrite !map_app, !map_map. f_equal; [|f_equal].
-  - destruct (schema_def_needed sc); [|reflexivity]. cbn [map]. rewrite strip_sdef_of. reflexivity.
-  - apply map_ext. intros; apply strip_ddef1_of.
-  - apply map_ext. intros; apply strip_def1_of.
-Qed.
-
-Lemma wf_doc_of fv sc : plain_schema sc -> valid_locations sc -> wf_doc fv (doc_of sc).
+Lemma wf_doc_of o fv sc : text_schema o sc -> valid_locations sc -> wf_doc fv (doc_of sc).
 Proof.
   intros (Ht & Hd & Hr & Hne) Hl. split.
   - unfold doc_of. cbn [doc_defs]. intros He. apply app_eq_nil in He. destruct He as [_ He].
     apply app_eq_nil in He. destruct He as [_ He]. apply map_eq_nil in He.
     exact (sort_by_nonempty _ _ Hne He).
   - unfold doc_of. cbn [doc_defs]. apply Forall_app; split; [|apply Forall_app; split].
-    + destruct (schema_def_needed sc); [|constructor]. constructor; [|constructor]. apply wf_sdef_of; exact Hr.
+    + destruct (schema_def_needed sc); [|constructor]. constructor; [|constructor]. apply (wf_sdef_of o); exact Hr.
     + apply Forall_forall; intros x Hx. apply in_map_iff in Hx. destruct Hx as [d [<- Hd']].
-      apply sort_by_in in Hd'. unfold valid_locations in Hl. rewrite Forall_forall in Hd, Hl. apply wf_ddef1_of; [apply Hd|apply Hl]; exact Hd'.
+      apply sort_by_in in Hd'. unfold valid_locations in Hl. rewrite Forall_forall in Hd, Hl.
+      apply (wf_ddef1_of o); [apply Hd|apply Hl]; exact Hd'.
     + apply Forall_forall; intros x Hx. apply in_map_iff in Hx. destruct Hx as [t [<- Ht']].
-      apply sort_by_in in Ht'. rewrite Forall_forall in Ht. apply wf_def1_of. apply Ht; exact Ht'.
+      apply sort_by_in in Ht'. rewrite Forall_forall in Ht. apply (wf_def1_of o). apply Ht; exact Ht'.
 Qed.
 
 (* The text printed by the schema printer parses back to the declarative
-   AST of the schema (for the plain sub-language): composition of
-   print_is_print_ast with the C03 SDL round trip.                       *)
+   AST of the schema: composition of print_is_print_ast with the C03 SDL
+   round trip.                                                           *)
 Theorem text_parses_to_ast intro spec o fl sc text :
-  plain_schema sc -> valid_locations sc -> po_introspection o = false ->
+  text_schema o sc -> valid_locations sc -> po_introspection o = false ->
   no_location fl = true -> allow_type_system fl = true -> all_ws (po_indent o) ->
   print_schema intro spec o sc = Ok text ->
   parse_document fl text = Ok (doc_of sc) /\ ast_of_schema sc = Ok (doc_of sc).
 Proof.
   intros Hp Hl Hi Hnl Hts Hws Hprint.
-  destruct (print_is_print_ast o intro spec sc Hp Hi) as (d & Hd & Ht).
-  rewrite (ast_of_schema_plain sc Hp) in Hd. injection Hd as <-.
-  rewrite Ht in Hprint. injection Hprint as <-. split; [|apply ast_of_schema_plain; exact Hp].
-  rewrite (sdl_roundtrip fl (po_indent o) (doc_of sc) Hnl Hts Hws (wf_doc_of _ sc Hp Hl)).
-  rewrite strip_doc_of. reflexivity.
+  rewrite (print_is_print_ast o intro spec sc Hp Hi) in Hprint. injection Hprint as <-.
+  split; [|apply (ast_of_schema_plain o); exact Hp].
+  rewrite (sdl_roundtrip fl (po_indent o) (doc_of sc) Hnl Hts Hws (wf_doc_of o _ sc Hp Hl)).
+  rewrite (strip_doc_of o sc Hp). reflexivity.
 Qed.
